@@ -73,16 +73,9 @@ Proof. induction 2; [constructor | econstructor; eauto; apply H; auto]. Qed.
 Definition owner (s : state) (i : nat) : option nat := o_owner (getd s i).
 Definition cover (s : state) (i : nat) : nat := match owner s i with Some c => c | None => i end.
 
-Record wf (s : state) : Prop := mkWf {
-  wf_closed : forall i x, alive s i = true -> In x (edges (getd s i)) -> alive s x = true;
-  wf_cover  : forall i r, alive s i = true -> In (Some r) (o_slots (getd s i)) -> sreach s (cover s i) r;
-  wf_owner  : forall i c, alive s i = true -> owner s i = Some c ->
-                alive s c = true /\ (forall x, alive s x = true -> In i (edges (getd s x)) -> x = c) /\ ~ In i (roots s);
-  wf_roots  : forall x, In x (roots s) -> alive s x = true }.
-
 (* extension: what later steps may rely on *)
 Definition ext (s s' : state) : Prop :=
-  (forall i, alive s i = true -> alive s' i = true /\ owner s' i = owner s i) /\ vis_mono s s'.
+  (forall i, alive s i = true -> alive s' i = true /\ owner s' i = owner s i /\ o_kind (getd s' i) = o_kind (getd s i)) /\ vis_mono s s'.
 
 Lemma ext_refl : forall s, ext s s.
 Proof. split; [auto | intros i x; auto]. Qed.
@@ -90,9 +83,29 @@ Proof. split; [auto | intros i x; auto]. Qed.
 Lemma ext_trans : forall a b c, ext a b -> ext b c -> ext a c.
 Proof.
   intros a b c [A1 A2] [B1 B2]; split.
-  - intros i H. destruct (A1 i H) as [H1 H2]. destruct (B1 i H1) as [H3 H4]. split; auto. congruence.
+  - intros i H. destruct (A1 i H) as [H1 [H2 H2']]. destruct (B1 i H1) as [H3 [H4 H4']]. split; auto. split; congruence.
   - intros i x H. apply B2, A2; auto.
 Qed.
+
+(* The invariant, in two strengths.
+   strict = true : every raw reference of every uncollected object is covered (its holder's cover structurally reaches
+                   it): preserved by every TRACKED step.
+   strict = false: the same for the objects no operation ever writes - function records (their code address) and
+                   IMMUTABLE globals - only: preserved by EVERY step (hand-overs through untracked channels, F08 and F35,
+                   included), provided exported immutable globals point to their exporter's module engine (imm_ok). *)
+Section WF.
+Variable strict : bool.
+
+Definition must_cover (s : state) (i : nat) : Prop := strict = true \/ writable (o_kind (getd s i)) = false.
+
+Record wf (s : state) : Prop := mkWf {
+  wf_closed : forall i x, alive s i = true -> In x (edges (getd s i)) -> alive s x = true;
+  wf_cover  : forall i r, alive s i = true -> In (Some r) (o_slots (getd s i)) -> must_cover s i -> sreach s (cover s i) r;
+  wf_owner  : forall i c, alive s i = true -> owner s i = Some c ->
+                alive s c = true /\ (forall x, alive s x = true -> In i (edges (getd s x)) -> x = c) /\ ~ In i (roots s);
+  wf_roots  : forall x, In x (roots s) -> alive s x = true;
+  (* what an immutable global holds is a function record (or garbage never dereferenced: there is none) *)
+  wf_typed  : forall i r, In (Some r) (o_slots (getd s i)) -> o_kind (getd s i) = KGlobalC -> o_kind (getd s r) = KFunc }.
 
 Lemma in_vis_edges : forall o x, In x (o_vis o) -> In x (edges o).
 Proof. intros; unfold edges; apply in_or_app; auto. Qed.
@@ -110,9 +123,9 @@ Proof.
 Qed.
 
 (* the safety consequence: no raw reference held by an uncollected object points to a collected one *)
-Theorem wf_no_dangling : forall s i r, wf s -> alive s i = true -> In (Some r) (o_slots (getd s i)) -> alive s r = true.
+Theorem wf_no_dangling : forall s i r, wf s -> alive s i = true -> In (Some r) (o_slots (getd s i)) -> must_cover s i -> alive s r = true.
 Proof.
-  intros s i r W A H. eapply sreach_alive; eauto using wf_cover, cover_alive.
+  intros s i r W A H MC. eapply sreach_alive; eauto using wf_cover, cover_alive.
 Qed.
 
 (* the cover of an object is structurally reachable from whoever points to it *)
@@ -126,9 +139,9 @@ Proof.
 Qed.
 
 Lemma reach_slot : forall s x i r, wf s -> alive s x = true -> In i (o_vis (getd s x)) ->
-  In (Some r) (o_slots (getd s i)) -> sreach s x r.
+  In (Some r) (o_slots (getd s i)) -> must_cover s i -> sreach s x r.
 Proof.
-  intros s x i r W A H S.
+  intros s x i r W A H S MC.
   eapply sreach_trans; [eapply cover_from_pointer; eauto|].
   apply wf_cover; auto. eapply wf_closed; eauto using in_vis_edges.
 Qed.
@@ -140,14 +153,16 @@ Lemma wf_upd : forall s i f,
   wf s ->
   o_alive (f (getd s i)) = o_alive (getd s i) ->
   o_owner (f (getd s i)) = o_owner (getd s i) ->
+  o_kind (f (getd s i)) = o_kind (getd s i) ->
   incl (o_vis (getd s i)) (o_vis (f (getd s i))) ->
+  (forall r, In (Some r) (o_slots (f (getd s i))) -> In (Some r) (o_slots (getd s i)) \/ writable (o_kind (getd s i)) = true) ->
   (alive s i = true ->
      (forall x, In x (edges (f (getd s i))) ->
         alive s x = true /\ (In x (edges (getd s i)) \/ owner s x = None \/ owner s x = Some i)) /\
-     (forall r, In (Some r) (o_slots (f (getd s i))) -> In (Some r) (o_slots (getd s i)) \/ sreach s (cover s i) r)) ->
+     (forall r, In (Some r) (o_slots (f (getd s i))) -> must_cover s i -> In (Some r) (o_slots (getd s i)) \/ sreach s (cover s i) r)) ->
   wf (upd_obj s i f) /\ ext s (upd_obj s i f).
 Proof.
-  intros s i f W HA HO HV HC.
+  intros s i f W HA HO HK HV HT HC.
   set (s' := upd_obj s i f).
   assert (G : forall j, getd s' j = if (j =? i) && (i <? length (heap s)) then f (getd s i) else getd s j)
     by (intro; apply getd_upd).
@@ -157,22 +172,25 @@ Proof.
   assert (OW : forall j, owner s' j = owner s j).
   { intro j. unfold owner. rewrite G. destruct ((j =? i) && (i <? length (heap s))) eqn:E; auto.
     apply andb_true_iff in E; destruct E as [E _]; apply Nat.eqb_eq in E; subst; auto. }
+  assert (KD : forall j, o_kind (getd s' j) = o_kind (getd s j)).
+  { intro j. rewrite G. destruct ((j =? i) && (i <? length (heap s))) eqn:E; auto.
+    apply andb_true_iff in E; destruct E as [E _]; apply Nat.eqb_eq in E; subst; auto. }
   assert (VM : vis_mono s s').
   { intros j x H. rewrite G. destruct ((j =? i) && (i <? length (heap s))) eqn:E; auto.
     apply andb_true_iff in E; destruct E as [E _]; apply Nat.eqb_eq in E; subst; auto. }
   assert (CV : forall j, cover s' j = cover s j) by (intro; unfold cover; rewrite OW; auto).
   assert (RT : roots s' = roots s) by reflexivity.
-  split; [|split; [intros j H; rewrite AL, OW; auto | exact VM]].
+  split; [|split; [intros j H; rewrite AL, OW, KD; auto | exact VM]].
   constructor.
   - intros j x A H. rewrite AL in *. rewrite G in H.
     destruct ((j =? i) && (i <? length (heap s))) eqn:E.
     + apply andb_true_iff in E; destruct E as [E _]; apply Nat.eqb_eq in E; subst.
       destruct (HC A) as [H1 _]. apply H1; auto.
     + eapply wf_closed; eauto.
-  - intros j r A H. rewrite AL in A. rewrite CV. rewrite G in H.
+  - intros j r A H MC. rewrite AL in A. rewrite CV. unfold must_cover in MC. rewrite KD in MC. rewrite G in H.
     destruct ((j =? i) && (i <? length (heap s))) eqn:E.
     + apply andb_true_iff in E; destruct E as [E _]; apply Nat.eqb_eq in E; subst.
-      destruct (HC A) as [_ H2]. destruct (H2 r H).
+      destruct (HC A) as [_ H2]. destruct (H2 r H MC).
       * eapply sreach_mono; eauto. apply wf_cover; auto.
       * eapply sreach_mono; eauto.
     + eapply sreach_mono; eauto. apply wf_cover; auto.
@@ -187,6 +205,11 @@ Proof.
       * congruence.
     + apply H2; auto.
   - intros x H. rewrite AL. apply (wf_roots s W); auto.
+  - intros j r H K. rewrite KD in *. rewrite G in H.
+    destruct ((j =? i) && (i <? length (heap s))) eqn:E.
+    + apply andb_true_iff in E; destruct E as [E _]; apply Nat.eqb_eq in E; subst.
+      destruct (HT r H) as [H' | H']; [eapply wf_typed; eauto | rewrite K in H'; discriminate].
+    + eapply wf_typed; eauto.
 Qed.
 
 Lemma ext_same_heap : forall s s', heap s' = heap s -> ext s s'.
@@ -194,6 +217,9 @@ Proof.
   intros s s' E. assert (G : forall i, getd s' i = getd s i) by (intro; unfold getd; rewrite E; auto).
   split; [intros i A; unfold alive, owner; rewrite G; auto | intros i x; rewrite G; auto].
 Qed.
+
+Lemma ext_kind : forall s s' i, ext s s' -> alive s i = true -> o_kind (getd s' i) = o_kind (getd s i).
+Proof. intros s s' i [H _] A; apply H; auto. Qed.
 
 Lemma sreach_same_heap : forall s s' a b, heap s' = heap s -> sreach s a b -> sreach s' a b.
 Proof. intros s s' a b E. apply sreach_mono. intros i x. unfold getd; rewrite E; auto. Qed.
@@ -205,7 +231,7 @@ Proof.
   intros s l W H. split; [|apply ext_same_heap; reflexivity].
   constructor.
   - intros i x A K. eapply (wf_closed s W); eassumption.
-  - intros i r A K. apply (sreach_same_heap s); [reflexivity|]. apply (wf_cover s W); assumption.
+  - intros i r A K MC. apply (sreach_same_heap s); [reflexivity|]. apply (wf_cover s W); assumption.
   - intros i c A O. change (alive s i = true) in A; change (owner s i = Some c) in O.
     destruct (wf_owner s W i c A O) as [H1 [H2 H3]]. split; [auto | split; auto].
     unfold roots in *; simpl. intro K; apply in_app_or in K; destruct K as [K | K].
@@ -214,6 +240,7 @@ Proof.
   - intros x K. unfold roots in K; simpl in K. apply in_app_or in K; destruct K as [K | K].
     + destruct (H _ K) as [K1 | [K1 _]]; auto. apply (wf_roots s W); apply in_or_app; auto.
     + apply (wf_roots s W); apply in_or_app; auto.
+  - intros i r K1 K2. eapply (wf_typed s W); eassumption.
 Qed.
 
 Lemma wf_flight : forall s l, wf s ->
@@ -222,7 +249,7 @@ Proof.
   intros s l W H. split; [|apply ext_same_heap; reflexivity].
   constructor.
   - intros i x A K. eapply (wf_closed s W); eassumption.
-  - intros i r A K. apply (sreach_same_heap s); [reflexivity|]. apply (wf_cover s W); assumption.
+  - intros i r A K MC. apply (sreach_same_heap s); [reflexivity|]. apply (wf_cover s W); assumption.
   - intros i c A O. change (alive s i = true) in A; change (owner s i = Some c) in O.
     destruct (wf_owner s W i c A O) as [H1 [H2 H3]]. split; [auto | split; auto].
     unfold roots in *; simpl. intro K; apply in_app_or in K; destruct K as [K | K].
@@ -231,6 +258,7 @@ Proof.
   - intros x K. unfold roots in K; simpl in K. apply in_app_or in K; destruct K as [K | K].
     + apply (wf_roots s W); apply in_or_app; auto.
     + destruct (H _ K) as [K1 | [K1 _]]; auto. apply (wf_roots s W); apply in_or_app; auto.
+  - intros i r K1 K2. eapply (wf_typed s W); eassumption.
 Qed.
 
 (* ------------------------------------------------------------------------------------------ *)
@@ -241,17 +269,20 @@ Lemma wf_alloc : forall s o,
   (forall x, In x (edges o) -> alive s x = true /\ owner s x = None) ->
   match o_owner o with
   | Some c => alive s c = true /\ (forall r, In (Some r) (o_slots o) -> sreach s c r)
-  | None => forall r, ~ In (Some r) (o_slots o)
+  | None => forall r, In (Some r) (o_slots o) -> (strict = true \/ writable (o_kind o) = false) ->
+                      exists x, In x (o_vis o) /\ sreach s x r
   end ->
+  (o_kind o = KGlobalC -> forall r, In (Some r) (o_slots o) -> o_kind (getd s r) = KFunc) ->
   wf (fst (alloc s o)) /\ ext s (fst (alloc s o)) /\ alive (fst (alloc s o)) (length (heap s)) = true /\
   getd (fst (alloc s o)) (length (heap s)) = o.
 Proof.
-  intros s o W HA HE HS.
+  intros s o W HA HE HS HT.
   set (n := length (heap s)). set (s' := fst (alloc s o)).
   assert (G : forall j, getd s' j = if j =? n then o else getd s j) by (intro; apply getd_alloc).
   assert (Gn : getd s' n = o) by (rewrite G, Nat.eqb_refl; auto).
   assert (Go : forall j, alive s j = true -> getd s' j = getd s j).
   { intros j A. rewrite G. destruct (Nat.eqb_spec j n); auto. apply alive_lt in A. subst j; unfold n in A; lia. }
+  assert (Gd : getd s n = dead_obj) by (apply getd_dead; unfold n; lia).
   assert (AL : forall j, alive s j = true -> alive s' j = true) by (intros j A; unfold alive; rewrite Go; auto).
   assert (AL' : forall j, alive s' j = true -> j = n \/ alive s j = true).
   { intros j A. unfold alive in A; rewrite G in A. destruct (Nat.eqb_spec j n); auto. }
@@ -267,10 +298,13 @@ Proof.
   - intros j x A H. destruct (AL' j A) as [-> | A0].
     + rewrite Gn in H. apply AL, HE; auto.
     + rewrite Go in H; auto. apply AL. eapply wf_closed; eauto.
-  - intros j r A H. destruct (AL' j A) as [-> | A0].
-    + rewrite Gn in H. unfold cover, owner. rewrite Gn.
-      destruct (o_owner o) as [c|]; [destruct HS as [_ HS]; eapply sreach_mono; eauto | exfalso; eapply HS; eauto].
+  - intros j r A H MC. destruct (AL' j A) as [-> | A0].
+    + rewrite Gn in H. unfold must_cover in MC. rewrite Gn in MC. unfold cover, owner. rewrite Gn.
+      destruct (o_owner o) as [c|].
+      * destruct HS as [_ HS]; eapply sreach_mono; eauto.
+      * destruct (HS r H MC) as [x [Hx Rx]]. apply sr_step with x; [rewrite Gn; auto | eapply sreach_mono; eauto].
     + rewrite Go in H; auto. assert (cover s' j = cover s j) by (unfold cover, owner; rewrite Go; auto).
+      unfold must_cover in MC. rewrite Go in MC; auto.
       rewrite H0. eapply sreach_mono; eauto. apply wf_cover; auto.
   - intros j c A O. rewrite RT. destruct (AL' j A) as [-> | A0].
     + unfold owner in O; rewrite Gn in O. rewrite O in HS. destruct HS as [HS _].
@@ -284,6 +318,10 @@ Proof.
       * rewrite Gn in Hx. apply HE in Hx. destruct Hx as [_ Hx]. unfold owner in Hx; congruence.
       * rewrite Go in Hx; auto.
   - intros x K. rewrite RT in K. apply AL. apply (wf_roots s W); auto.
+  - intros j r H K.
+    assert (T : o_kind (getd s r) = KFunc).
+    { rewrite G in H, K. destruct (Nat.eqb_spec j n); [apply HT; auto | eapply wf_typed; eauto]. }
+    rewrite G. destruct (Nat.eqb_spec r n); auto. subst r. rewrite Gd in T. discriminate.
 Qed.
 
 (* ------------------------------------------------------------------------------------------ *)
@@ -362,6 +400,7 @@ Proof.
   assert (ED : forall j, edges (getd s' j) = edges (getd s j)) by (intro j; rewrite G; destruct (memb j M); reflexivity).
   assert (SL : forall j, o_slots (getd s' j) = o_slots (getd s j)) by (intro j; rewrite G; destruct (memb j M); reflexivity).
   assert (OW : forall j, owner s' j = owner s j) by (intro j; unfold owner; rewrite G; destruct (memb j M); reflexivity).
+  assert (KD : forall j, o_kind (getd s' j) = o_kind (getd s j)) by (intro j; rewrite G; destruct (memb j M); reflexivity).
   assert (VM : vis_mono s s') by (intros j x H; rewrite G; destruct (memb j M); auto).
   assert (CV : forall j, cover s' j = cover s j) by (intro; unfold cover; rewrite OW; auto).
   assert (RT : roots s' = roots s) by reflexivity.
@@ -373,7 +412,8 @@ Proof.
   - intros i x A H. apply AL in A. destruct A as [A K]. rewrite ED in H. apply AL. split.
     + eapply wf_closed; eauto.
     + eapply M2; eauto.
-  - intros i r A H. apply AL in A. destruct A as [A K]. rewrite SL in H. rewrite CV.
+  - intros i r A H MC. apply AL in A. destruct A as [A K]. rewrite SL in H. rewrite CV.
+    unfold must_cover in MC; rewrite KD in MC.
     eapply sreach_mono; eauto. apply wf_cover; auto.
   - intros i c A O. apply AL in A. destruct A as [A K]. rewrite OW in O. rewrite RT.
     destruct (wf_owner s W i c A O) as [H1 [H2 H3]].
@@ -383,6 +423,7 @@ Proof.
     split; [apply AL; auto | split; auto].
     intros x Ax Hx. apply AL in Ax. destruct Ax as [Ax _]. rewrite ED in Hx. auto.
   - intros x K. rewrite RT in K. apply AL. split; [apply (wf_roots s W); auto | apply M1; auto].
+  - intros i r H K. rewrite KD in *. rewrite SL in H. eapply wf_typed; eauto.
 Qed.
 
 (* ------------------------------------------------------------------------------------------ *)
@@ -415,17 +456,18 @@ Qed.
 (* any update that keeps o_vis, o_slots, owner and alive and only shrinks o_reg *)
 Lemma wf_shrink : forall s i f, wf s ->
   (forall o, o_alive (f o) = o_alive o /\ o_owner (f o) = o_owner o /\ o_vis (f o) = o_vis o /\
-             o_slots (f o) = o_slots o /\ incl (o_reg (f o)) (o_reg o)) ->
+             o_slots (f o) = o_slots o /\ incl (o_reg (f o)) (o_reg o) /\ o_kind (f o) = o_kind o) ->
   wf (upd_obj s i f) /\ ext s (upd_obj s i f).
 Proof.
-  intros s i f W H. destruct (H (getd s i)) as [H1 [H2 [H3 [H4 H5]]]].
+  intros s i f W H. destruct (H (getd s i)) as [H1 [H2 [H3 [H4 [H5 H6]]]]].
   apply wf_upd; auto.
   - rewrite H3; apply incl_refl.
+  - intros r K. rewrite H4 in K; auto.
   - intros Ai. split.
     + intros y K. assert (In y (edges (getd s i))).
       { unfold edges in *. rewrite H3 in K. apply in_app_or in K. apply in_or_app. destruct K; auto. }
       split; [eapply wf_closed; eauto | auto].
-    + intros r K. rewrite H4 in K; auto.
+    + intros r K _. rewrite H4 in K; auto.
 Qed.
 
 Lemma wf_del_reg : forall s i x, wf s -> wf (del_reg s i x) /\ ext s (del_reg s i x).
@@ -449,15 +491,18 @@ Proof.
     + destruct H; [left; left; auto|]. destruct (IH _ _ _ H); [left; right; auto | right; auto].
 Qed.
 
+(* a write into a table or a mutable global: nothing to show unless the invariant is the strict one *)
 Lemma wf_set_slot : forall s h k v, wf s ->
-  (forall r, v = Some r -> alive s h = true -> sreach s (cover s h) r) ->
+  writable (o_kind (getd s h)) = true ->
+  (strict = true -> forall r, v = Some r -> alive s h = true -> sreach s (cover s h) r) ->
   wf (set_slot s h k v) /\ ext s (set_slot s h k v).
 Proof.
-  intros s h k v W H. unfold set_slot. apply wf_upd; auto.
+  intros s h k v W WR H. unfold set_slot. apply wf_upd; auto.
   - simpl; apply incl_refl.
   - intros A. split.
     + intros y K. split; [eapply wf_closed; eauto | left; auto].
-    + simpl. intros r K. apply In_set_nth in K. destruct K; [left; auto | right; auto].
+    + simpl. intros r K MC. apply In_set_nth in K. destruct K; [left; auto | right].
+      destruct MC as [MC | MC]; [auto | rewrite WR in MC; discriminate].
 Qed.
 
 (* ------------------------------------------------------------------------------------------ *)
@@ -472,24 +517,32 @@ Proof.
   repeat split; auto. eapply wf_closed; eauto. apply in_vis_edges; auto.
 Qed.
 
+Lemma kind_eqb_eq : forall a b, kind_eqb a b = true -> a = b.
+Proof. intros a b H; destruct a; destruct b; auto; discriminate. Qed.
+
 Lemma rec_ok_spec : forall s i f, wf s -> rec_ok s i f = true ->
-  inst_ok s i = true /\ In (rec_of s i f) (o_vis (getd s (me_of s i))) /\ sreach s i (rec_of s i f).
+  inst_ok s i = true /\ In (rec_of s i f) (o_vis (getd s (me_of s i))) /\ sreach s i (rec_of s i f) /\
+  o_kind (getd s (rec_of s i f)) = KFunc.
 Proof.
   intros s i f W H. unfold rec_ok in H.
+  apply andb_true_iff in H; destruct H as [H HK]. apply kind_eqb_eq in HK.
   apply andb_true_iff in H; destruct H as [H H0]. apply andb_true_iff in H; destruct H as [H H1].
   apply memb_In in H0. destruct (inst_ok_spec s i W H) as [_ [K _]].
   repeat split; auto. econstructor; eauto. apply sreach_edge; auto.
 Qed.
 
+Lemma listsb_spec : forall s i h, listsb s i h = true <-> In i (o_vis (getd s h)) \/ In (me_of s i) (o_vis (getd s h)).
+Proof. intros. unfold listsb. rewrite orb_true_iff, !memb_In. tauto. Qed.
+
 Lemma holder_ok_spec : forall s i t, wf s -> holder_ok s i t = true ->
   inst_ok s i = true /\ In (holder_of s i t) (o_vis (getd s i)) /\
-  (owner s (holder_of s i t) = None -> In i (o_vis (getd s (holder_of s i t)))).
+  (owner s (holder_of s i t) = None -> In i (o_vis (getd s (holder_of s i t))) \/ In (me_of s i) (o_vis (getd s (holder_of s i t)))).
 Proof.
   intros s i t W H. unfold holder_ok, holder_acc, involvedb in H.
   apply andb_true_iff in H; destruct H as [H H0]. apply andb_true_iff in H; destruct H as [H H1].
   apply andb_true_iff in H; destruct H as [H H2].
   apply memb_In in H1. repeat split; auto.
-  intros K. unfold owner in K. rewrite K in H0. apply memb_In; auto.
+  intros K. unfold owner in K. rewrite K in H0. apply listsb_spec; auto.
 Qed.
 
 Lemma holder_acc_spec : forall s i t, wf s -> holder_acc s i t = true ->
@@ -500,8 +553,25 @@ Proof.
   apply memb_In in H1. split; auto.
 Qed.
 
+Lemma holder_wr_spec : forall s i t, holder_wr s i t = true ->
+  holder_acc s i t = true /\ writable (o_kind (getd s (holder_of s i t))) = true.
+Proof. intros s i t H. unfold holder_wr in H. apply andb_true_iff in H; auto. Qed.
+
 Lemma holder_ok_split : forall s i t, holder_acc s i t = true -> involvedb s i (holder_of s i t) = true -> holder_ok s i t = true.
 Proof. intros; unfold holder_ok; apply andb_true_iff; auto. Qed.
+
+(* the module engine of an instance points back to it *)
+Lemma inst_ok_back : forall s i, inst_ok s i = true -> In i (o_vis (getd s (me_of s i))).
+Proof. intros s i H. unfold inst_ok in H. apply andb_true_iff in H; destruct H as [_ H]. apply memb_In; auto. Qed.
+
+(* a holder that lists the instance or its module engine reaches whatever the instance reaches *)
+Lemma lists_covers : forall s i h r, inst_ok s i = true ->
+  In i (o_vis (getd s h)) \/ In (me_of s i) (o_vis (getd s h)) -> sreach s i r -> sreach s h r.
+Proof.
+  intros s i h r I [K | K] R.
+  - econstructor; eauto.
+  - econstructor; [exact K|]. econstructor; [apply inst_ok_back; auto | exact R].
+Qed.
 
 (* whatever the instance reaches structurally is covered for each of its holders *)
 Lemma holder_covers : forall s i t r, wf s -> holder_ok s i t = true -> sreach s i r ->
@@ -512,7 +582,7 @@ Proof.
   unfold cover. destruct (owner s (holder_of s i t)) eqn:E.
   - assert (Ah : alive s (holder_of s i t) = true) by (eapply wf_closed; eauto using in_vis_edges).
     destruct (wf_owner s W _ n Ah E) as [_ [U _]]. rewrite <- (U i A (in_vis_edges _ _ Hv)). auto.
-  - econstructor; eauto.
+  - eapply lists_covers; eauto.
 Qed.
 
 Lemma nth_Some_In : forall (l : list (option nat)) k r, nth k l None = Some r -> In (Some r) l.
@@ -525,10 +595,28 @@ Qed.
 Lemma wf_set_ref : forall s i t k f, wf s -> wf (set_ref s i t k f) /\ ext s (set_ref s i t k f).
 Proof.
   intros s i t k f W. unfold set_ref.
-  destruct (holder_ok s i t && rec_ok s i f) eqn:E; [|split; auto using ext_refl].
-  apply andb_true_iff in E; destruct E as [E1 E2].
-  apply wf_set_slot; auto. intros r Hr _. inversion Hr; subst.
+  destruct (holder_ok s i t && holder_wr s i t && rec_ok s i f) eqn:E; [|split; auto using ext_refl].
+  apply andb_true_iff in E; destruct E as [E E2]. apply andb_true_iff in E; destruct E as [E1 E3].
+  apply wf_set_slot; auto. { apply holder_wr_spec; auto. }
+  intros _ r Hr _. inversion Hr; subst.
   apply holder_covers; auto. apply rec_ok_spec; auto.
+Qed.
+
+(* an element item / initialiser `global.get g` of an imported IMMUTABLE global: what the global holds is covered
+   in either strength of the invariant *)
+Lemma wf_copy_ref : forall s i t k ts, wf s -> wf (copy_ref s i t k ts) /\ ext s (copy_ref s i t k ts).
+Proof.
+  intros s i t k ts W. unfold copy_ref.
+  destruct (holder_ok s i t && holder_wr s i t && holder_acc s i ts && kind_eqb (o_kind (getd s (holder_of s i ts))) KGlobalC) eqn:E;
+    [|split; auto using ext_refl].
+  apply andb_true_iff in E; destruct E as [E E4]. apply andb_true_iff in E; destruct E as [E E3].
+  apply andb_true_iff in E; destruct E as [E1 E2]. apply kind_eqb_eq in E4.
+  apply wf_set_slot; auto. { apply holder_wr_spec; auto. }
+  intros _ r Hr _.
+  apply holder_covers; auto.
+  destruct (holder_acc_spec s i ts W E3) as [I Hv]. destruct (inst_ok_spec s i W I) as [A _].
+  eapply reach_slot; eauto. { eapply nth_Some_In; eauto. }
+  right. rewrite E4. reflexivity.
 Qed.
 
 (* ------------------------------------------------------------------------------------------ *)
@@ -564,27 +652,44 @@ Proof. intros s s' a b [_ H]; apply sreach_mono; auto. Qed.
 Lemma ext_vis : forall s s' i x, ext s s' -> In x (o_vis (getd s i)) -> In x (o_vis (getd s' i)).
 Proof. intros s s' i x [_ H] K; apply H; auto. Qed.
 
-Lemma wf_alloc_owned : forall contents s c k,
-  wf s -> alive s c = true ->
-  (forall sl r, In sl contents -> In (Some r) sl -> sreach s c r) ->
-  wf (fst (alloc_owned s c k contents)) /\ ext s (fst (alloc_owned s c k contents)).
+Lemma add_vis_In : forall s i x, i < length (heap s) -> In x (o_vis (getd (add_vis s i x) i)).
 Proof.
-  induction contents as [|sl rest IH]; intros s c k W A H; simpl.
-  - split; auto using ext_refl.
+  intros s i x L. unfold add_vis. rewrite getd_upd. rewrite Nat.eqb_refl.
+  destruct (Nat.ltb_spec i (length (heap s))); [simpl; auto | lia].
+Qed.
+
+Lemma wf_alloc_owned : forall contents s c k,
+  wf s -> alive s c = true -> k <> KGlobalC ->
+  (forall sl r, In sl contents -> In (Some r) sl -> sreach s c r) ->
+  wf (fst (alloc_owned s c k contents)) /\ ext s (fst (alloc_owned s c k contents)) /\
+  (forall x, In x (snd (alloc_owned s c k contents)) ->
+     In x (o_vis (getd (fst (alloc_owned s c k contents)) c)) /\ o_kind (getd (fst (alloc_owned s c k contents)) x) = k /\
+     alive (fst (alloc_owned s c k contents)) x = true).
+Proof.
+  induction contents as [|sl rest IH]; intros s c k W A NK H; simpl.
+  - split; [auto | split; [apply ext_refl | intros x []]].
   - set (o := mkObj k [] [] sl (Some c) [] true false).
     destruct (wf_alloc s o W) as [W1 [E1 [A1 G1]]]; auto.
     { intros x K; destruct K. }
     { simpl. split; auto. intros r K. eapply H; eauto. left; auto. }
+    { simpl. intros K; contradiction. }
     change (fst (alloc s o)) with (with_heap s (heap s ++ [o])) in *.
     set (s1 := with_heap s (heap s ++ [o])) in *.
     destruct (wf_add_vis s1 c (length (heap s)) W1 A1) as [W2 E2].
     { right. unfold owner. rewrite G1. reflexivity. }
     assert (E12 : ext s (add_vis s1 c (length (heap s)))) by (eapply ext_trans; eauto).
-    destruct (IH (add_vis s1 c (length (heap s))) c k W2) as [W3 E3].
-    { eapply ext_alive; eauto. }
+    assert (Ac2 : alive (add_vis s1 c (length (heap s))) c = true) by (eapply ext_alive; eauto).
+    destruct (IH (add_vis s1 c (length (heap s))) c k W2) as [W3 [E3 X3]]; auto.
     { intros sl' r K1 K2. eapply ext_sreach; eauto. eapply H; eauto. right; auto. }
+    assert (In0 : In (length (heap s)) (o_vis (getd (add_vis s1 c (length (heap s))) c))).
+    { apply add_vis_In. apply alive_lt. eapply ext_alive; eauto. }
+    assert (An : alive (add_vis s1 c (length (heap s))) (length (heap s)) = true) by (exact (ext_alive s1 _ _ E2 A1)).
+    assert (Kn : o_kind (getd (add_vis s1 c (length (heap s))) (length (heap s))) = k).
+    { rewrite (ext_kind s1 _ _ E2 A1). rewrite G1; reflexivity. }
     destruct (alloc_owned (add_vis s1 c (length (heap s))) c k rest) as [s3 xs] eqn:EQ. simpl in *.
-    split; auto. eapply ext_trans; eauto.
+    split; auto. split; [eapply ext_trans; eauto|].
+    intros x [<- | K]; [|apply X3; auto].
+    split; [eapply ext_vis; eauto|]. split; [rewrite (ext_kind _ s3 _ E3 An); auto | eapply ext_alive; eauto].
 Qed.
 
 Lemma wf_alloc_exported : forall n s i size,
@@ -597,6 +702,7 @@ Proof.
     destruct (wf_alloc s o W) as [W1 [E1 [A1 G1]]]; auto.
     { intros x K. unfold edges in K; simpl in K. destruct K as [<- | []]. auto. }
     { simpl. intros r K. apply repeat_spec in K. discriminate. }
+    { simpl; intros K; discriminate. }
     change (fst (alloc s o)) with (with_heap s (heap s ++ [o])) in *.
     set (s1 := with_heap s (heap s ++ [o])) in *.
     destruct (wf_add_vis s1 i (length (heap s)) W1 A1) as [W2 E2].
@@ -629,27 +735,6 @@ Proof.
     split; auto. eapply ext_trans; eauto.
 Qed.
 
-Lemma wf_alloc_globals : forall n s i,
-  wf s -> alive s i = true ->
-  wf (fst (alloc_globals s i n)) /\ ext s (fst (alloc_globals s i n)).
-Proof.
-  induction n as [|n IH]; intros s i W A; simpl.
-  - split; auto using ext_refl.
-  - set (o := mkObj KGlobal [] [] [None] None [] true false).
-    destruct (wf_alloc s o W) as [W1 [E1 [A1 G1]]]; auto.
-    { intros x K; destruct K. }
-    { simpl. intros r [K | []]. discriminate. }
-    change (fst (alloc s o)) with (with_heap s (heap s ++ [o])) in *.
-    set (s1 := with_heap s (heap s ++ [o])) in *.
-    destruct (wf_add_vis s1 i (length (heap s)) W1 A1) as [W2 E2].
-    { left. unfold owner. rewrite G1. reflexivity. }
-    assert (E12 : ext s (add_vis s1 i (length (heap s)))) by (eapply ext_trans; eauto).
-    destruct (IH (add_vis s1 i (length (heap s))) i W2) as [W3 E3].
-    { eapply ext_alive; eauto. }
-    destruct (alloc_globals (add_vis s1 i (length (heap s))) i n) as [s3 xs] eqn:EQ. simpl in *.
-    split; auto. eapply ext_trans; eauto.
-Qed.
-
 Lemma wf_link_globals : forall gs s i,
   wf s -> (forall g, In g gs -> alive s g = true /\ owner s g = None) ->
   wf (link_globals s i gs) /\ ext s (link_globals s i gs).
@@ -663,11 +748,91 @@ Proof.
     split; auto. eapply ext_trans; eauto.
 Qed.
 
+Lemma link_globals_vis : forall gs s i, wf s -> i < length (heap s) ->
+  (forall g, In g gs -> alive s g = true /\ owner s g = None) ->
+  forall g, In g gs -> In g (o_vis (getd (link_globals s i gs) i)).
+Proof.
+  induction gs as [|g gs IH]; intros s i W L H x Hx; simpl in *; [contradiction|].
+  destruct (H g (or_introl eq_refl)) as [Ag Og].
+  destruct (wf_add_vis s i g W Ag (or_introl Og)) as [W1 E1].
+  assert (H' : forall g', In g' gs -> alive (add_vis s i g) g' = true /\ owner (add_vis s i g) g' = None).
+  { intros g' K. destruct (H g' (or_intror K)). split; [eapply ext_alive; eauto | rewrite (ext_owner s); eauto]. }
+  assert (L' : i < length (heap (add_vis s i g))) by (unfold add_vis, upd_obj; simpl; rewrite length_upd; auto).
+  destruct Hx as [<- | Hx]; [|apply IH; auto].
+  destruct (wf_link_globals gs (add_vis s i g) i W1 H') as [_ E2].
+  eapply ext_vis; eauto. apply add_vis_In; auto.
+Qed.
+
+(* the exported globals. Needed of a global with a non-null initialiser - of every one under the strict invariant, of the
+   IMMUTABLE ones under the weak - : it points to the module engine (g_me) *)
+Definition gspec_ok (g : gspec) : Prop :=
+  (strict = true \/ g_mut g = false) -> ginit_null (g_init g) = true \/ g_me g = true.
+
+Lemma wf_alloc_globals : forall gs s i me recs gimp,
+  wf s -> alive s i = true -> alive s me = true -> owner s me = None ->
+  In i (o_vis (getd s me)) ->
+  (forall r, In r recs -> In r (o_vis (getd s me)) /\ o_kind (getd s r) = KFunc) ->
+  (forall g, In g gimp -> In g (o_vis (getd s i))) ->
+  (forall g, In g gs -> gspec_ok g) ->
+  wf (fst (alloc_globals s i me recs gimp gs)) /\ ext s (fst (alloc_globals s i me recs gimp gs)).
+Proof.
+  induction gs as [|g gs IH]; intros s i me recs gimp W A Am Om Bk HR HG OK; simpl.
+  - split; auto using ext_refl.
+  - set (o := mkObj (if g_mut g then KGlobal else KGlobalC) (if g_me g then [me] else []) []
+                    [ginit_val s recs gimp (g_init g)] None [] true false).
+    (* what the initialiser evaluates to is a function record the module engine reaches *)
+    assert (V : forall r, ginit_val s recs gimp (g_init g) = Some r -> sreach s me r /\ o_kind (getd s r) = KFunc).
+    { intros r Hr. destruct (g_init g) as [|f|q]; simpl in Hr; [discriminate | |].
+      - destruct (Nat.ltb_spec f (length recs)); [|discriminate]. inversion Hr; subst.
+        destruct (HR (nth f recs 0)) as [K1 K2]; [apply nth_In; auto|]. split; auto. apply sreach_edge; auto.
+      - destruct ((q <? length gimp) && kind_eqb (o_kind (getd s (nth q gimp 0))) KGlobalC) eqn:E; [|discriminate].
+        apply andb_true_iff in E; destruct E as [E1 E2]. apply Nat.ltb_lt in E1. apply kind_eqb_eq in E2.
+        assert (Gq : In (nth q gimp 0) (o_vis (getd s i))) by (apply HG; apply nth_In; auto).
+        assert (Sr : In (Some r) (o_slots (getd s (nth q gimp 0)))) by (eapply nth_Some_In; eauto).
+        split; [|eapply wf_typed; eauto].
+        econstructor; [exact Bk|]. eapply reach_slot; eauto. right. rewrite E2; reflexivity. }
+    destruct (wf_alloc s o W) as [W1 [E1 [A1 G1]]]; auto.
+    { intros x K. unfold edges in K; simpl in K. rewrite app_nil_r in K.
+      destruct (g_me g); [destruct K as [<- | []]; auto | destruct K]. }
+    { simpl. intros r [K | []] MC. inversion K as [K'].
+      destruct (V r K') as [R _].
+      assert (M : g_me g = true).
+      { assert (C : strict = true \/ g_mut g = false).
+        { destruct MC as [MC | MC]; auto. destruct (g_mut g); auto. }
+        destruct (OK g (or_introl eq_refl) C) as [N | N]; auto.
+        destruct (g_init g); simpl in *; discriminate. }
+      rewrite M. exists me. split; simpl; auto. }
+    { simpl. intros _ r [K | []]. inversion K as [K']. apply (V r K'). }
+    change (fst (alloc s o)) with (with_heap s (heap s ++ [o])) in *.
+    set (s1 := with_heap s (heap s ++ [o])) in *.
+    destruct (wf_add_vis s1 i (length (heap s)) W1 A1) as [W2 E2].
+    { left. unfold owner. rewrite G1. reflexivity. }
+    assert (E12 : ext s (add_vis s1 i (length (heap s)))) by (eapply ext_trans; eauto).
+    destruct (IH (add_vis s1 i (length (heap s))) i me recs gimp W2) as [W3 E3].
+    { eapply ext_alive; eauto. }
+    { eapply ext_alive; eauto. }
+    { rewrite (ext_owner s); eauto. }
+    { eapply ext_vis; eauto. }
+    { intros r K. destruct (HR r K) as [K1 K2]. split; [eapply ext_vis; eauto|].
+      rewrite (ext_kind s); eauto. eapply wf_closed; eauto. apply in_vis_edges; auto. }
+    { intros g' K. eapply ext_vis; eauto. }
+    { intros g' K. apply OK. right; auto. }
+    destruct (alloc_globals (add_vis s1 i (length (heap s))) i me recs gimp gs) as [s3 xs] eqn:EQ. simpl in *.
+    split; auto. eapply ext_trans; eauto.
+Qed.
+
 Lemma wf_fold_set_ref : forall els s i, wf s ->
   wf (fold_left (fun st e => let '(t, k, f) := e in set_ref st i t k f) els s).
 Proof.
   induction els as [|[[t k] f] els IH]; intros s i W; simpl; auto.
   apply IH. apply wf_set_ref; auto.
+Qed.
+
+Lemma wf_fold_copy_ref : forall els s i, wf s ->
+  wf (fold_left (fun st e => let '(t, k, ts) := e in copy_ref st i t k ts) els s).
+Proof.
+  induction els as [|[[t k] ts] els IH]; intros s i W; simpl; auto.
+  apply IH. apply wf_copy_ref; auto.
 Qed.
 
 Lemma wf_compile : forall s, wf s -> wf (compile s).
@@ -681,6 +846,7 @@ Proof.
   destruct (wf_alloc s o W) as [W1 [E1 [A1 G1]]]; auto.
   { intros x K. unfold edges in K; simpl in K. destruct K as [<- | []]. auto. }
   { simpl. intros r K; destruct K. }
+  { simpl; intros K; discriminate. }
   unfold alloc. cbv beta iota zeta.
   change (fst (alloc s o)) with (with_heap s (heap s ++ [o])) in *.
   set (s1 := with_heap s (heap s ++ [o])) in *.
@@ -700,8 +866,8 @@ Lemma impf_ok_spec : forall s p, wf s -> impf_ok s p = true ->
 Proof.
   intros s [j n] W H. unfold impf_ok in H. simpl.
   apply andb_true_iff in H; destruct H as [H _]. apply andb_true_iff in H; destruct H as [H _].
-  destruct (rec_ok_spec s j n W H) as [I [K _]]. destruct (inst_ok_spec s j W I) as [_ [_ [O A]]].
-  repeat split; auto. intros r Hr. eapply reach_slot; eauto.
+  destruct (rec_ok_spec s j n W H) as [I [K [_ KF]]]. destruct (inst_ok_spec s j W I) as [_ [_ [O A]]].
+  repeat split; auto. intros r Hr. eapply reach_slot; eauto. right. rewrite KF. reflexivity.
 Qed.
 
 Lemma impt_ok_spec : forall s p, wf s -> impt_ok s p = true ->
@@ -724,9 +890,12 @@ Proof.
   split; [eapply wf_closed; eauto using in_vis_edges | apply is_none_spec; auto].
 Qed.
 
-Lemma wf_instantiate : forall s sp, wf s -> wf (instantiate s sp).
+Lemma length_upd_obj : forall s i f, length (heap (upd_obj s i f)) = length (heap s).
+Proof. intros; unfold upd_obj; simpl; apply length_upd. Qed.
+
+Lemma wf_instantiate : forall s sp, wf s -> (forall g, In g (sp_expg sp) -> gspec_ok g) -> wf (instantiate s sp).
 Proof.
-  intros s sp W. unfold instantiate. destruct (can_instantiate s sp) eqn:C; auto.
+  intros s sp W GOK. unfold instantiate. destruct (can_instantiate s sp) eqn:C; auto.
   unfold can_instantiate in C.
   apply andb_true_iff in C; destruct C as [C CG].
   apply andb_true_iff in C; destruct C as [C CT]. apply andb_true_iff in C; destruct C as [C CF].
@@ -740,6 +909,7 @@ Proof.
   destruct (wf_alloc s oI W) as [W1 [E1 [A1 G1]]]; auto.
   { intros x K. unfold edges in K; simpl in K. destruct K as [<- | []]. auto. }
   { simpl. intros r K; destruct K. }
+  { simpl; intros K; discriminate. }
   unfold alloc at 1. cbv beta iota.
   change (fst (alloc s oI)) with (with_heap s (heap s ++ [oI])) in *.
   set (s1 := with_heap s (heap s ++ [oI])) in *. set (ni := length (heap s)) in *.
@@ -755,6 +925,7 @@ Proof.
       destruct (impf_ok_spec s p W (CF p Kp)) as [Ap [Op _]].
       split; [eapply ext_alive; eauto | rewrite (ext_owner s); eauto]. }
   { simpl. intros r K; destruct K. }
+  { simpl; intros K; discriminate. }
   unfold alloc at 1. cbv beta iota.
   change (fst (alloc s1 oM)) with (with_heap s1 (heap s1 ++ [oM])) in *.
   set (s2 := with_heap s1 (heap s1 ++ [oM])) in *. set (nme := length (heap s1)) in *.
@@ -764,10 +935,15 @@ Proof.
   assert (E03 : ext s s3) by (apply (ext_trans s s2 s3); auto; apply (ext_trans s s1 s2); auto).
   assert (V3 : forall x, In x (o_vis oM) -> In x (o_vis (getd s3 nme))).
   { intros x K. apply (ext_vis s2 s3 nme x E3). rewrite G2; auto. }
+  assert (NM : forall t, ext s3 t -> alive t nme = true /\ owner t nme = None /\ In ni (o_vis (getd t nme))).
+  { intros t Et. assert (A3 : alive s3 nme = true) by (apply (ext_alive s2 s3); auto).
+    split; [apply (ext_alive s3 t); auto|]. split; [rewrite (ext_owner s3 t); auto; rewrite (ext_owner s2 s3); auto|].
+    apply (ext_vis s3 t); auto. apply V3; simpl; auto. }
   (* function records *)
   match goal with |- context [alloc_owned s3 nme KFunc ?c] => set (codes := c) end.
-  destruct (wf_alloc_owned codes s3 nme KFunc W3) as [W4 E4].
+  destruct (wf_alloc_owned codes s3 nme KFunc W3) as [W4 [E4 X4]].
   { apply (ext_alive s2 s3); auto. }
+  { discriminate. }
   { intros sl r K Kr. unfold codes in K. apply in_app_or in K. destruct K as [K | K].
     - apply in_map_iff in K. destruct K as [p [<- Kp]].
       destruct (impf_ok_spec s p W (CF p Kp)) as [_ [_ R]].
@@ -775,24 +951,27 @@ Proof.
       eapply ext_sreach; eauto.
     - apply repeat_spec in K. subst sl. destruct Kr as [Kr | []]. inversion Kr; subst.
       apply sreach_edge. apply V3; simpl; auto. }
-  destruct (alloc_owned s3 nme KFunc codes) as [s4 recs] eqn:Q4. simpl fst in *.
+  destruct (alloc_owned s3 nme KFunc codes) as [s4 recs] eqn:Q4. simpl fst in *. simpl snd in *.
   assert (E14 : ext s1 s4) by (apply (ext_trans s1 s3 s4); auto; apply (ext_trans s1 s2 s3); auto).
   (* exported tables, private tables, globals *)
   destruct (wf_alloc_exported (sp_nexp sp) s4 ni (sp_size sp) W4) as [W5 E5].
   { apply (NI s4 E14). } { apply (NI s4 E14). }
   destruct (alloc_exported s4 ni (sp_nexp sp) (sp_size sp)) as [s5 texp] eqn:Q5. simpl fst in *.
   assert (E15 : ext s1 s5) by (apply (ext_trans s1 s4 s5); auto).
-  destruct (wf_alloc_owned (repeat (repeat None (sp_size sp)) (sp_npriv sp)) s5 ni KTable W5) as [W6 E6].
+  destruct (wf_alloc_owned (repeat (repeat None (sp_size sp)) (sp_npriv sp)) s5 ni KTable W5) as [W6 [E6 _]].
   { apply (NI s5 E15). }
+  { discriminate. }
   { intros sl r K Kr. apply repeat_spec in K. subst sl. apply repeat_spec in Kr. discriminate. }
   destruct (alloc_owned s5 ni KTable (repeat (repeat None (sp_size sp)) (sp_npriv sp))) as [s6 tpriv] eqn:Q6. simpl fst in *.
   assert (E16 : ext s1 s6) by (apply (ext_trans s1 s5 s6); auto).
-  destruct (wf_alloc_owned (repeat [None] (sp_nglob sp)) s6 ni KGlobal W6) as [W7 E7].
+  destruct (wf_alloc_owned (repeat [None] (sp_nglob sp)) s6 ni KGlobal W6) as [W7 [E7 _]].
   { apply (NI s6 E16). }
+  { discriminate. }
   { intros sl r K Kr. apply repeat_spec in K. subst sl. destruct Kr as [Kr | []]. discriminate. }
   destruct (alloc_owned s6 ni KGlobal (repeat [None] (sp_nglob sp))) as [s7 globs] eqn:Q7. simpl fst in *.
   assert (E17 : ext s1 s7) by (apply (ext_trans s1 s6 s7); auto).
   assert (E07 : ext s s7) by (apply (ext_trans s s1 s7); auto).
+  assert (E47 : ext s4 s7) by (apply (ext_trans s4 s5 s7); auto; apply (ext_trans s5 s6 s7); auto).
   (* imported tables *)
   set (timp := map (fun p : nat * nat => holder_of s (fst p) (snd p)) (sp_impt sp)).
   destruct (wf_link_tables timp s7 ni W7) as [W8 E8].
@@ -802,18 +981,26 @@ Proof.
     split; [apply (ext_alive s s7); auto | rewrite (ext_owner s s7); auto]. }
   set (s8 := link_tables s7 ni timp) in *.
   assert (E18 : ext s1 s8) by (apply (ext_trans s1 s7 s8); auto).
-  (* exported and imported globals *)
-  destruct (wf_alloc_globals (sp_nexpg sp) s8 ni W8) as [W8a E8a].
-  { apply (NI s8 E18). }
-  destruct (alloc_globals s8 ni (sp_nexpg sp)) as [s8a gexp] eqn:Q8a. simpl fst in *.
-  assert (E18a : ext s1 s8a) by (apply (ext_trans s1 s8 s8a); auto).
-  assert (E08a : ext s s8a) by (apply (ext_trans s s1 s8a); auto).
+  assert (E08 : ext s s8) by (apply (ext_trans s s1 s8); auto).
+  (* imported globals, then the exported ones with their initialisers *)
   set (gimp := map (fun p : nat * nat => holder_of s (fst p) (snd p)) (sp_impg sp)).
-  destruct (wf_link_globals gimp s8a ni W8a) as [W8b E8b].
+  assert (HG : forall g, In g gimp -> alive s8 g = true /\ owner s8 g = None).
   { intros g K. unfold gimp in K. apply in_map_iff in K. destruct K as [p [<- Kp]].
     destruct (impg_ok_spec s p W (CG p Kp)) as [Ag Og].
-    split; [apply (ext_alive s s8a); auto | rewrite (ext_owner s s8a); auto]. }
-  set (s8b := link_globals s8a ni gimp) in *.
+    split; [apply (ext_alive s s8); auto | rewrite (ext_owner s s8); auto]. }
+  destruct (wf_link_globals gimp s8 ni W8 HG) as [W8a E8a].
+  assert (VG : forall g, In g gimp -> In g (o_vis (getd (link_globals s8 ni gimp) ni))).
+  { apply link_globals_vis; auto. apply alive_lt. apply (NI s8 E18). }
+  set (s8a := link_globals s8 ni gimp) in *.
+  assert (E18a : ext s1 s8a) by (apply (ext_trans s1 s8 s8a); auto).
+  assert (E48a : ext s4 s8a) by (apply (ext_trans s4 s7 s8a); auto; apply (ext_trans s7 s8 s8a); auto).
+  assert (E38a : ext s3 s8a) by (apply (ext_trans s3 s4 s8a); auto).
+  destruct (NM s8a E38a) as [Am [Om Bk]].
+  destruct (wf_alloc_globals (sp_expg sp) s8a ni nme recs gimp W8a) as [W8b E8b]; auto.
+  { apply (NI s8a E18a). }
+  { intros r K. destruct (X4 r K) as [K1 [K2 K3]]. split; [apply (ext_vis s4 s8a); auto|].
+    rewrite (ext_kind s4 s8a); auto. }
+  destruct (alloc_globals s8a ni nme recs gimp (sp_expg sp)) as [s8b gexp] eqn:Q8b. simpl fst in *.
   destruct (wf_set_dir s8b ni (nme :: timp ++ texp ++ tpriv ++ globs ++ gexp ++ gimp) W8b) as [W9 E9].
   match goal with |- context [upd_obj (upd_obj s8b ni ?f) nme (set_dir recs)] => set (s9a := upd_obj s8b ni f) in * end.
   destruct (wf_set_dir s9a nme recs W9) as [W9' E9'].
@@ -821,7 +1008,7 @@ Proof.
   assert (E19 : ext s1 s9) by (apply (ext_trans s1 s9a s9); auto; apply (ext_trans s1 s8b s9a); auto; apply (ext_trans s1 s8a s8b); auto).
   destruct (wf_add_reg s9 RUNTIME ni W9') as [W10 E10].
   { apply (NI s9 E19). } { left. apply (NI s9 E19). }
-  apply wf_fold_set_ref.
+  apply wf_fold_copy_ref. apply wf_fold_set_ref.
   apply wf_host; auto.
   intros x K. change (host (add_reg s9 RUNTIME ni)) with (host s9). destruct K as [<- | K]; auto.
   destruct (NI s9 E19) as [N1 N2].
@@ -835,46 +1022,80 @@ Qed.
 Lemma tl_In : forall A (l : list A) x, In x (tl l) -> In x l.
 Proof. destruct l; simpl; auto. Qed.
 
-Lemma step_wf : forall s o, wf s -> tracked s o = true -> wf (step s o).
+Lemma gspec_ok_of : forall sp, (strict = true -> forallb gspec_tracked (sp_expg sp) = true) ->
+  (strict = false -> forallb gspec_imm_ok (sp_expg sp) = true) -> forall g, In g (sp_expg sp) -> gspec_ok g.
 Proof.
-  intros s o W T. destruct o; simpl.
+  intros sp T1 T2 g K C. destruct strict eqn:ST.
+  - specialize (T1 eq_refl). rewrite forallb_forall in T1. specialize (T1 g K). unfold gspec_tracked in T1.
+    apply orb_true_iff in T1; tauto.
+  - specialize (T2 eq_refl). rewrite forallb_forall in T2. specialize (T2 g K). unfold gspec_imm_ok in T2.
+    destruct C as [C | C]; [discriminate|]. rewrite C in T2. simpl in T2. apply orb_true_iff in T2; tauto.
+Qed.
+
+(* every step preserves the invariant: the strict one if the step is tracked, the weak one always (given imm_ok) *)
+Lemma step_wf : forall s o, wf s -> (strict = true -> tracked s o = true) -> (strict = false -> imm_ok o = true) -> wf (step s o).
+Proof.
+  intros s o W T TI. destruct o; simpl.
   - apply wf_compile; auto.
-  - apply wf_instantiate; auto.
-  - simpl in T. destruct (holder_acc s i t && rec_ok s i f) eqn:E; auto.
-    simpl in T. apply andb_true_iff in E; destruct E as [E1 E2].
-    apply wf_set_slot; auto. intros r Hr _. inversion Hr; subst.
+  - apply wf_instantiate; auto. apply gspec_ok_of; auto.
+  - destruct (holder_wr s i t && rec_ok s i f) eqn:E; auto.
+    apply andb_true_iff in E; destruct E as [E1 E2]. destruct (holder_wr_spec s i t E1) as [E1a E1w].
+    apply wf_set_slot; auto. intros ST r Hr _. inversion Hr; subst.
+    specialize (T ST). simpl in T. rewrite E1, E2 in T. simpl in T.
     apply holder_covers; auto using holder_ok_split. apply rec_ok_spec; auto.
-  - simpl in T. destruct (holder_acc s i ts && holder_acc s i td) eqn:E; auto.
-    simpl in T. apply andb_true_iff in E; destruct E as [E1 E2].
-    apply wf_set_slot; auto. intros r Hr _.
+  - destruct (holder_acc s i ts && holder_wr s i td) eqn:E; auto.
+    apply andb_true_iff in E; destruct E as [E1 E2]. destruct (holder_wr_spec s i td E2) as [E2a E2w].
+    apply wf_set_slot; auto. intros ST r Hr _.
+    specialize (T ST). simpl in T. rewrite E1, E2 in T. simpl in T.
     apply holder_covers; auto using holder_ok_split.
     destruct (holder_acc_spec s i ts W E1) as [I Hv]. destruct (inst_ok_spec s i W I) as [A _].
-    eapply reach_slot; eauto. eapply nth_Some_In; eauto.
-  - destruct (holder_acc s i t) eqn:E; auto.
-    apply wf_set_slot; auto. intros r Hr; discriminate.
-  - simpl in T. destruct (holder_acc s i t && rec_ok s i f) eqn:E; simpl; auto.
-    simpl in T. apply andb_true_iff in E; destruct E as [E1 E2].
-    destruct (kind_eqb (o_kind (getd s (holder_of s i t))) KTable); auto.
+    eapply reach_slot; eauto. { eapply nth_Some_In; eauto. } left; auto.
+  - destruct (holder_wr s i t) eqn:E; auto. destruct (holder_wr_spec s i t E) as [Ea Ew].
+    apply wf_set_slot; auto. intros _ r Hr; discriminate.
+  - destruct (holder_acc s i t && rec_ok s i f) eqn:E; simpl; auto.
+    apply andb_true_iff in E; destruct E as [E1 E2].
+    destruct (kind_eqb (o_kind (getd s (holder_of s i t))) KTable) eqn:KT; auto. apply kind_eqb_eq in KT.
     apply wf_upd; auto.
     + simpl; apply incl_refl.
+    + simpl. intros r _. right. rewrite KT. reflexivity.
     + intros A. split.
       * intros y K. split; [eapply wf_closed; eauto | left; auto].
-      * simpl. intros r K. apply in_app_or in K. destruct K as [K | [K | []]]; [left; auto | right].
+      * simpl. intros r K MC. apply in_app_or in K. destruct K as [K | [K | []]]; [left; auto | right].
+        destruct MC as [ST | MC]; [|rewrite KT in MC; discriminate].
+        specialize (T ST). simpl in T. rewrite E1, E2 in T. simpl in T.
         inversion K; subst. apply holder_covers; auto using holder_ok_split. apply rec_ok_spec; auto.
-  - simpl in T. destruct (rec_ok s i f && holder_acc s j t) eqn:E; auto.
-    simpl in T. apply andb_true_iff in E; destruct E as [E1 E2].
-    destruct (rec_ok_spec s i f W E1) as [I [Rv R]].
-    apply wf_set_slot; auto. intros r Hr _. inversion Hr; subst.
+  - destruct (rec_ok s i f && holder_wr s j t) eqn:E; auto.
+    apply andb_true_iff in E; destruct E as [E1 E2]. destruct (holder_wr_spec s j t E2) as [E2a E2w].
+    destruct (rec_ok_spec s i f W E1) as [I [Rv [R _]]].
+    apply wf_set_slot; auto. intros ST r Hr _. inversion Hr; subst.
+    specialize (T ST). simpl in T. rewrite E1, E2 in T. simpl in T.
     apply orb_true_iff in T. destruct T as [T | T].
-    + apply andb_true_iff in T; destruct T as [TI T].
+    + apply andb_true_iff in T; destruct T as [TI' T].
       apply holder_covers; auto using holder_ok_split.
       apply orb_true_iff in T. destruct T as [T | T].
       * apply Nat.eqb_eq in T; subst; auto.
-      * apply memb_In in T. destruct (holder_acc_spec s j t W E2) as [J _].
+      * apply memb_In in T. destruct (holder_acc_spec s j t W E2a) as [J _].
         destruct (inst_ok_spec s j W J) as [_ [Jv _]].
-        econstructor; [exact Jv|]. econstructor; [exact T|]. apply sreach_edge; auto.
+        econstructor; [exact Jv|]. econstructor; [exact T|]. econstructor; [apply inst_ok_back; auto | exact R].
     + unfold sharedb in T. unfold cover, owner. destruct (o_owner (getd s (holder_of s j t))); [discriminate|].
-      apply memb_In in T. econstructor; [exact T | exact R].
+      apply listsb_spec in T. eapply lists_covers; eauto.
+  - destruct (holder_acc s i ts && holder_wr s j t) eqn:E; auto.
+    apply andb_true_iff in E; destruct E as [E1 E2]. destruct (holder_wr_spec s j t E2) as [E2a E2w].
+    apply wf_set_slot; auto. intros ST r Hr _.
+    destruct (holder_acc_spec s i ts W E1) as [I Hv]. destruct (inst_ok_spec s i W I) as [A _].
+    assert (R : sreach s i r).
+    { eapply reach_slot; eauto. { eapply nth_Some_In; eauto. } left; auto. }
+    specialize (T ST). simpl in T. rewrite E1, E2 in T. simpl in T.
+    apply orb_true_iff in T. destruct T as [T | T].
+    + apply andb_true_iff in T; destruct T as [TI' T].
+      apply holder_covers; auto using holder_ok_split.
+      apply orb_true_iff in T. destruct T as [T | T].
+      * apply Nat.eqb_eq in T; subst; auto.
+      * apply memb_In in T. destruct (holder_acc_spec s j t W E2a) as [J _].
+        destruct (inst_ok_spec s j W J) as [_ [Jv _]].
+        econstructor; [exact Jv|]. econstructor; [exact T|]. econstructor; [apply inst_ok_back; auto | exact R].
+    + unfold sharedb in T. unfold cover, owner. destruct (o_owner (getd s (holder_of s j t))); [discriminate|].
+      apply listsb_spec in T. eapply lists_covers; eauto.
   - auto.
   - auto.
   - destruct (inst_ok s i) eqn:E; auto.
@@ -894,12 +1115,6 @@ Proof.
   - apply wf_gc; auto.
 Qed.
 
-Lemma run_wf : forall ops s, wf s -> all_tracked s ops = true -> wf (run s ops).
-Proof.
-  unfold run. induction ops as [|o ops IH]; intros s W T; simpl in *; auto.
-  apply andb_true_iff in T; destruct T as [T1 T2]. apply IH; auto. apply step_wf; auto.
-Qed.
-
 Lemma wf_init : forall c, wf (init c).
 Proof.
   intro c.
@@ -915,6 +1130,23 @@ Proof.
     destruct c; destruct i as [|[|[|i]]]; try lia; unfold owner, getd in H; simpl in H; discriminate.
   - intros x H. destruct c; unfold roots in H; simpl in H;
       repeat (destruct H as [<- | H]; [reflexivity|]); contradiction.
+  - intros i r H K. exfalso.
+    destruct c; destruct i as [|[|[|i]]]; unfold getd in H; simpl in H; try contradiction; destruct i; simpl in H; contradiction.
+Qed.
+
+End WF.
+
+Lemma run_wf : forall ops s, wf true s -> all_tracked s ops = true -> wf true (run s ops).
+Proof.
+  unfold run. induction ops as [|o ops IH]; intros s W T; simpl in *; auto.
+  apply andb_true_iff in T; destruct T as [T1 T2]. apply IH; auto. apply step_wf; auto. discriminate.
+Qed.
+
+(* the weak invariant survives EVERY history *)
+Lemma run_wf_weak : forall ops s, wf false s -> forallb imm_ok ops = true -> wf false (run s ops).
+Proof.
+  unfold run. induction ops as [|o ops IH]; intros s W T; simpl in *; auto.
+  apply andb_true_iff in T; destruct T as [T1 T2]. apply IH; auto. apply step_wf; auto. discriminate.
 Qed.
 
 (* all visible edges *)
@@ -922,18 +1154,18 @@ Inductive reach (s : state) : nat -> nat -> Prop :=
 | r_refl : forall a, reach s a a
 | r_step : forall a x b, In x (edges (getd s a)) -> reach s x b -> reach s a b.
 
-Lemma reach_alive : forall s a b, wf s -> reach s a b -> alive s a = true -> alive s b = true.
-Proof. intros s a b W R; induction R; intros; auto. apply IHR. eapply wf_closed; eauto. Qed.
+Lemma reach_alive : forall st s a b, wf st s -> reach s a b -> alive s a = true -> alive s b = true.
+Proof. intros st s a b W R; induction R; intros; auto. apply IHR. eapply wf_closed; eauto. Qed.
 
 (* what `dangling` means: some raw reference reachable from the live instance i points to a collected object *)
 Definition dangling (s : state) (i : nat) : Prop :=
   inst_ok s i = true /\ exists o r, reach s i o /\ In (Some r) (o_slots (getd s o)) /\ alive s r = false.
 
-Lemma wf_not_dangling : forall s i, wf s -> ~ dangling s i.
+Lemma wf_not_dangling : forall s i, wf true s -> ~ dangling s i.
 Proof.
   intros s i W [I [o [r [R [H A]]]]].
-  destruct (inst_ok_spec s i W I) as [Ai _].
-  rewrite (wf_no_dangling s o r W (reach_alive s i o W R Ai) H) in A. discriminate.
+  destruct (inst_ok_spec true s i W I) as [Ai _].
+  rewrite (wf_no_dangling true s o r W (reach_alive true s i o W R Ai) H (or_introl eq_refl)) in A. discriminate.
 Qed.
 
 Theorem safe_if_tracked : forall c ops, all_tracked (init c) ops = true ->
@@ -942,10 +1174,10 @@ Theorem safe_if_tracked : forall c ops, all_tracked (init c) ops = true ->
   (forall o r, alive s o = true -> In (Some r) (o_slots (getd s o)) ->
      alive s r = true /\ forall k, In (Some k) (o_slots (getd s r)) -> alive s k = true).
 Proof.
-  intros c ops T s. assert (W : wf s) by (apply run_wf; auto using wf_init).
+  intros c ops T s. assert (W : wf true s) by (apply run_wf; auto using wf_init).
   split; [intro; apply wf_not_dangling; auto|].
-  intros o r A H. assert (Ar : alive s r = true) by (eapply wf_no_dangling; eauto).
-  split; auto. intros k K. eapply wf_no_dangling; eauto.
+  intros o r A H. assert (Ar : alive s r = true) by (eapply wf_no_dangling; eauto; left; auto).
+  split; auto. intros k K. eapply wf_no_dangling; eauto. left; auto.
 Qed.
 
 (* ------------------------------------------------------------------------------------------ *)
@@ -1038,21 +1270,21 @@ Theorem close_order_irrelevant : forall c pre i closes,
   alive s i = true.
 Proof.
   intros c pre i closes T s0 I C s.
-  assert (W0 : wf s0) by (apply run_wf; auto using wf_init).
-  assert (W1 : wf (step s0 (OEnter i))) by (apply step_wf; auto).
-  assert (W : wf s).
+  assert (W0 : wf true s0) by (apply run_wf; auto using wf_init).
+  assert (W1 : wf true (step s0 (OEnter i))) by (apply step_wf; auto; discriminate).
+  assert (W : wf true s).
   { unfold s. change (run s0 (OEnter i :: closes)) with (run (step s0 (OEnter i)) closes).
     apply run_wf; auto. apply closing_tracked; auto. }
   destruct (closing_run_frame closes (step s0 (OEnter i)) C) as [F V].
   change (run (step s0 (OEnter i)) closes) with s in F, V.
   simpl in F, V. rewrite I in F, V.
   assert (R : alive s (me_of s0 i) = true).
-  { apply (wf_roots s W). unfold roots. apply in_or_app; right. rewrite F. simpl; auto. }
+  { apply (wf_roots true s W). unfold roots. apply in_or_app; right. rewrite F. simpl; auto. }
   assert (K : forall x, sreach s0 (me_of s0 i) x -> alive s x = true).
   { intros x Rx. eapply sreach_alive; eauto. eapply sreach_mono; [|exact Rx].
     intros j y Hy. apply V. exact Hy. }
   split; [intro; apply wf_not_dangling; auto|]. split.
-  - intros x Rx. split; [apply K; auto|]. intros r Hr. eapply wf_no_dangling; [exact W | apply K; exact Rx | exact Hr].
+  - intros x Rx. split; [apply K; auto|]. intros r Hr. eapply wf_no_dangling; [exact W | apply K; exact Rx | exact Hr | left; auto].
   - apply K. unfold inst_ok in I. apply andb_true_iff in I; destruct I as [_ I]. apply memb_In in I.
     apply sreach_edge; auto.
 Qed.
@@ -1062,8 +1294,8 @@ Qed.
 
 (* ids: 0 cache, 1 engine, 2 runtime; 3 compiled(B); 4 B, 5 B's module engine, 6 B.f, 7 B's private table;
    8 compiled(P); 9 P, 10 P's module engine, 11 P's record of the imported B.f, 12 P.f *)
-Definition spB := mkSpec 3 [] [] 1 0 1 0 4 [] 0 [].
-Definition spP := mkSpec 8 [(4, 0)] [] 1 0 0 0 4 [] 0 [].
+Definition spB := mkSpec 3 [] [] 1 0 1 0 4 [] [] [] [].
+Definition spP := mkSpec 8 [(4, 0)] [] 1 0 0 0 4 [] [] [] [].
 Definition f08_setup := [OCompile; OInstantiate spB; OCompile; OInstantiate spP; OPassParam 9 1 4 0 0].
 Definition f08_close := [OCloseModule 9; OCloseCompiled 8; ODrop 9; OGc].
 
@@ -1094,7 +1326,7 @@ Qed.
 
 (* the same history as the harness states it; the model's verdict on the last call is "dangling use" *)
 Example classify_F08 :
-  classify (true, [mkM [] [] 1 0 1 0 4 [] 0 []; mkM [(0, 0)] [] 1 0 0 0 4 [] 0 []],
+  classify (true, [mkM [] [] 1 0 1 0 4 [] [] [] []; mkM [(0, 0)] [] 1 0 0 0 4 [] [] [] []],
             [HCompile 0; HInst 0; HCompile 1; HInst 1; HPass 1 1 0 0 0; HCallInd 0 0 0;
              HCloseMod 1; HCloseCompiled 1; HDropMod 1; HDropCompiled 1; HGc; HCallInd 0 0 0])
   = [0; 0; 0; 0; 0; 0; 0; 0; 0; 0; 0; 2]%Z.
@@ -1106,8 +1338,8 @@ Proof. vm_compute. reflexivity. Qed.
 (* A exports two functions and a table; B imports A.f0 and the table, has a private table and a global.
    ids: 3 cm(A); 4 A, 5 ME(A), 6 A.f0, 7 A.f1, 8 A's exported table; 9 cm(B); 10 B, 11 ME(B), 12 B's record of A.f0,
    13 B.f0, 14 B's private table, 15 B's global *)
-Definition spA := mkSpec 3 [] [] 2 1 0 0 4 [(0, 0, 0)] 0 [].
-Definition spB2 := mkSpec 9 [(4, 0)] [(4, 0)] 1 0 1 1 4 [(0, 1, 1); (1, 0, 0)] 0 [].
+Definition spA := mkSpec 3 [] [] 2 1 0 0 4 [(0, 0, 0)] [] [] [].
+Definition spB2 := mkSpec 9 [(4, 0)] [(4, 0)] 1 0 1 1 4 [(0, 1, 1); (1, 0, 0)] [] [] [].
 Definition tracked_history :=
   [OCompile; OInstantiate spA; OCompile; OInstantiate spB2;
    OSetRef 10 0 2 1;        (* B puts its own function into the shared table *)
@@ -1151,50 +1383,66 @@ Proof. vm_compute. repeat split; reflexivity. Qed.
 (* ------------------------------------------------------------------------------------------ *)
 (* which channels are tracked, as a specification *)
 
-(* holder h tracks instance i: h is private (only its owner points to it) or lists i among its involving instances *)
+(* holder h lists instance i: among its involving instances (a TABLE that i exports or imports), or as the module engine
+   it belongs to (a GLOBAL that i exports, GlobalInstance.Me) *)
+Definition lists (s : state) (i h : nat) : Prop :=
+  In i (o_vis (getd s h)) \/ In (me_of s i) (o_vis (getd s h)).
+(* holder h tracks instance i: h is private (only its owner points to it) or lists i *)
 Definition involved (s : state) (i h : nat) : Prop :=
-  (exists c, owner s h = Some c) \/ In i (o_vis (getd s h)).
+  (exists c, owner s h = Some c) \/ lists s i h.
 
 Lemma involvedb_spec : forall s i h, involvedb s i h = true <-> involved s i h.
 Proof.
-  intros s i h. unfold involvedb, involved, owner. destruct (o_owner (getd s h)) as [c|].
+  intros s i h. unfold involvedb, involved, lists, owner. destruct (o_owner (getd s h)) as [c|].
   - split; auto. intros _. left; eauto.
-  - rewrite memb_In. split; auto. intros [[c K] | K]; auto. discriminate.
+  - rewrite listsb_spec. split; auto. intros [[c K] | K]; auto. discriminate.
 Qed.
 
-(* h is a shared holder listing i among its involving instances *)
-Definition shared_with (s : state) (i h : nat) : Prop := owner s h = None /\ In i (o_vis (getd s h)).
+(* h is a shared holder listing i *)
+Definition shared_with (s : state) (i h : nat) : Prop := owner s h = None /\ lists s i h.
 
 Lemma sharedb_spec : forall s i h, sharedb s i h = true <-> shared_with s i h.
 Proof.
-  intros s i h. unfold sharedb, shared_with, owner. destruct (o_owner (getd s h)) as [c|].
+  intros s i h. unfold sharedb, shared_with, lists, owner. destruct (o_owner (getd s h)) as [c|].
   - split; [discriminate | intros [K _]; discriminate].
-  - rewrite memb_In. tauto.
+  - rewrite listsb_spec. tauto.
 Qed.
 
 Definition tracked_prop (s : state) (o : op) : Prop :=
   match o with
-  | OSetRef i t k f => holder_acc s i t = true -> rec_ok s i f = true -> involved s i (holder_of s i t)
+  | OInstantiate sp => forall g, In g (sp_expg sp) -> g_init g = GNull \/ g_me g = true
+  | OSetRef i t k f => holder_wr s i t = true -> rec_ok s i f = true -> involved s i (holder_of s i t)
   | OGrowRef i t f => holder_acc s i t = true -> rec_ok s i f = true -> involved s i (holder_of s i t)
-  | OCopy i ts ks td kd => holder_acc s i ts = true -> holder_acc s i td = true -> involved s i (holder_of s i td)
+  | OCopy i ts ks td kd => holder_acc s i ts = true -> holder_wr s i td = true -> involved s i (holder_of s i td)
   | OPassParam i f j t k =>
-      rec_ok s i f = true -> holder_acc s j t = true ->
+      rec_ok s i f = true -> holder_wr s j t = true ->
+      (involved s j (holder_of s j t) /\ (i = j \/ In (me_of s i) (o_vis (getd s (me_of s j)))))
+      \/ shared_with s i (holder_of s j t)
+  | OPassVal i ts ks j t k =>
+      holder_acc s i ts = true -> holder_wr s j t = true ->
       (involved s j (holder_of s j t) /\ (i = j \/ In (me_of s i) (o_vis (getd s (me_of s j)))))
       \/ shared_with s i (holder_of s j t)
   | _ => True
   end.
 
+Lemma ginit_null_spec : forall g, ginit_null g = true <-> g = GNull.
+Proof. intros [| |]; simpl; split; intros; auto; discriminate. Qed.
+
 Lemma tracked_spec : forall s o, tracked s o = true <-> tracked_prop s o.
 Proof.
   intros s o. destruct o; simpl; try tauto.
+  - rewrite forallb_forall. unfold gspec_tracked.
+    split; intros H g K; specialize (H g K); [apply orb_true_iff in H | apply orb_true_iff]; rewrite ginit_null_spec in *; auto.
   - rewrite orb_true_iff, negb_true_iff, andb_false_iff, involvedb_spec.
-    destruct (holder_acc s i t); destruct (rec_ok s i f); intuition discriminate.
+    destruct (holder_wr s i t); destruct (rec_ok s i f); intuition discriminate.
   - rewrite orb_true_iff, negb_true_iff, andb_false_iff, involvedb_spec.
-    destruct (holder_acc s i ts); destruct (holder_acc s i td); intuition discriminate.
+    destruct (holder_acc s i ts); destruct (holder_wr s i td); intuition discriminate.
   - rewrite orb_true_iff, negb_true_iff, andb_false_iff, involvedb_spec.
     destruct (holder_acc s i t); destruct (rec_ok s i f); intuition discriminate.
   - rewrite !orb_true_iff, negb_true_iff, andb_false_iff, andb_true_iff, orb_true_iff, involvedb_spec, Nat.eqb_eq, memb_In, sharedb_spec.
-    destruct (rec_ok s i f); destruct (holder_acc s j t); intuition discriminate.
+    destruct (rec_ok s i f); destruct (holder_wr s j t); intuition discriminate.
+  - rewrite !orb_true_iff, negb_true_iff, andb_false_iff, andb_true_iff, orb_true_iff, involvedb_spec, Nat.eqb_eq, memb_In, sharedb_spec.
+    destruct (holder_acc s i ts); destruct (holder_wr s j t); intuition discriminate.
 Qed.
 
 (* ------------------------------------------------------------------------------------------ *)
@@ -1202,8 +1450,9 @@ Qed.
 
 (* ids: 3 compiled(A); 4 A, 5 A's module engine, 6 A.f, 7 A's exported global;
    8 compiled(B); 9 B, 10 B's module engine, 11 B.f.  B imports the global 7 and stores ref.func B.f in it. *)
-Definition spGA := mkSpec 3 [] [] 1 0 0 0 4 [] 1 [].
-Definition spGB := mkSpec 8 [] [] 1 0 0 0 4 [] 0 [(4, 0)].
+(* the exported mutable global points to A's module engine (wazevo); the refutation does not depend on that edge *)
+Definition spGA := mkSpec 3 [] [] 1 0 0 0 4 [] [mkG true GNull true] [] [].
+Definition spGB := mkSpec 8 [] [] 1 0 0 0 4 [] [] [(4, 0)] [].
 Definition f08b_setup := [OCompile; OInstantiate spGA; OCompile; OInstantiate spGB; OSetRef 9 0 0 0].
 Definition f08b_close := [OCloseModule 9; OCloseCompiled 8; ODrop 9; OGc].
 
@@ -1231,4 +1480,401 @@ Proof.
     + apply r_step with 7; [rewrite E; simpl; auto | apply r_refl].
     + rewrite S; simpl; auto.
     + vm_compute; reflexivity.
+Qed.
+
+(* ------------------------------------------------------------------------------------------ *)
+(* IMMUTABLE imported globals: a tracked channel for good, through the global's pointer to its exporter's engine *)
+
+(* a path reaches the cover of its end point (or is empty) *)
+Lemma sreach_cover : forall st s a b, wf st s -> sreach s a b -> alive s a = true -> a = b \/ sreach s a (cover s b).
+Proof.
+  intros st s a b W R. induction R as [a | a x b Hx R IH]; intros A; auto.
+  right. assert (Ax : alive s x = true) by (eapply wf_closed; eauto using in_vis_edges).
+  destruct (IH Ax) as [-> | K].
+  - eapply cover_from_pointer; eauto.
+  - econstructor; eauto.
+Qed.
+
+(* For ALL histories - whatever was handed over through whatever channel, F08 and F35 included - in which exported immutable
+   globals point to their exporter's module engine: an instance j that is not collected and has an immutable global g among
+   its globals (imported or own) structurally reaches the record g holds and that record's code - through g itself when g is
+   a shared (exported/imported) global -; record and code are not collected; and what g holds is a function record. *)
+Theorem immutable_global_import_keeps_definer : forall c ops, forallb imm_ok ops = true ->
+  let s := run (init c) ops in
+  forall j g r, inst_ok s j = true -> In g (o_vis (getd s j)) -> o_kind (getd s g) = KGlobalC ->
+    In (Some r) (o_slots (getd s g)) ->
+    alive s g = true /\ (owner s g = None -> sreach s g r) /\ sreach s j r /\ alive s r = true /\ o_kind (getd s r) = KFunc /\
+    (forall k, In (Some k) (o_slots (getd s r)) -> sreach s j k /\ alive s k = true).
+Proof.
+  intros c ops T s j g r I Hg Kg Hr.
+  assert (W : wf false s) by (apply run_wf_weak; auto using wf_init).
+  destruct (inst_ok_spec false s j W I) as [Aj _].
+  assert (NW : must_cover false s g) by (right; rewrite Kg; reflexivity).
+  assert (Ag : alive s g = true) by (eapply wf_closed; eauto using in_vis_edges).
+  assert (Rj : sreach s j r) by (eapply reach_slot; eauto).
+  assert (Ar : alive s r = true) by (eapply sreach_alive; eauto).
+  assert (Kr : o_kind (getd s r) = KFunc) by (eapply wf_typed; eauto).
+  assert (Kj : o_kind (getd s j) = KInstance).
+  { unfold inst_ok in I. repeat (apply andb_true_iff in I; destruct I as [I ?]). apply kind_eqb_eq; auto. }
+  assert (Rc : sreach s j (cover s r)).
+  { destruct (sreach_cover false s j r W Rj Aj) as [E | Rc]; auto. rewrite E in Kj. rewrite Kr in Kj. discriminate. }
+  split; auto. split.
+  { intros Og. generalize (wf_cover false s W g r Ag Hr NW). unfold cover. rewrite Og. auto. }
+  split; [exact Rj|]. split; [exact Ar|]. split; [exact Kr|].
+  intros k Hk.
+  assert (Rk : sreach s j k).
+  { eapply sreach_trans; [exact Rc|]. apply (wf_cover false s W); auto. right; rewrite Kr; reflexivity. }
+  split; [exact Rk|]. exact (sreach_alive false s j k W Rk Aj).
+Qed.
+
+(* the same invariant, for the other immutable objects: in every history the code address of a function record that is not
+   collected points to a compiled module that is not collected (calls through imports and exports never dangle, whatever
+   was handed over through untracked channels) *)
+Theorem function_records_never_dangle : forall c ops, forallb imm_ok ops = true ->
+  let s := run (init c) ops in
+  forall r k, alive s r = true -> o_kind (getd s r) = KFunc -> In (Some k) (o_slots (getd s r)) -> alive s k = true.
+Proof.
+  intros c ops T s r k A K H.
+  assert (W : wf false s) by (apply run_wf_weak; auto using wf_init).
+  eapply wf_no_dangling; eauto. right; rewrite K; reflexivity.
+Qed.
+
+(* ---- the seeded change: the immutable global does not point to its exporter's module engine ----
+   ids: 0 cache, 1 engine, 2 runtime; 3 compiled(A); 4 A, 5 A's module engine, 6 A.f, 7 A's exported IMMUTABLE global
+   (initialised with ref.func A.f); 8 compiled(M); 9 M, 10 M's module engine, 11 M.f, 12 M's private table.
+   M imports the global and nothing else; holders of M: 0 = its table, 1 = the imported global; the element item
+   `global.get g` fills slot 1 of the table at instantiation, `table.set 0 (global.get g)` slot 0 afterwards. *)
+Definition spIA (me : bool) := mkSpec 3 [] [] 1 0 0 0 4 [] [mkG false (GFunc 0) me] [] [].
+Definition spIM := mkSpec 8 [] [] 1 0 1 0 4 [] [] [(4, 0)] [(0, 1, 1)].
+Definition imm_setup (me : bool) := [OCompile; OInstantiate (spIA me); OCompile; OInstantiate spIM; OCopy 9 1 0 0 0].
+(* close the exporter and its compiled module, drop the handle, one more (unrelated) compilation, collect *)
+Definition imm_close := [OCloseModule 4; OCloseCompiled 3; ODrop 4; OCompile; OGc].
+
+(* is the k-th operation of a history tracked in the state it is performed in? *)
+Definition tracked_at (s : state) (ops : list op) (k : nat) : bool :=
+  match nth_error ops k with Some o => tracked (run s (firstn k ops)) o | None => true end.
+
+Lemma immutable_global_without_edge_refuted :
+  let s1 := run (init true) (imm_setup false) in
+  let s := run s1 imm_close in
+  (* before the close the calls through both table slots are fine *)
+  deref_ok s1 (slot s1 12 0) = true /\ deref_ok s1 (slot s1 12 1) = true /\
+  (* M's module engine points to its record, M and M's compiled module only: the global is all M imports *)
+  o_vis (getd s 10) = [11; 9; 8] /\ holder_of s 9 1 = 7 /\ o_kind (getd s 7) = KGlobalC /\ o_vis (getd s 7) = [] /\
+  (* afterwards M is a live, open instance whose handle is held; the global and both table slots hold A.f ... *)
+  inst_ok s 9 = true /\ open s 9 = true /\ In 9 (host s) /\ holder_acc s 9 1 = true /\
+  slot s 7 0 = Some 6 /\ slot s 12 0 = Some 6 /\ slot s 12 1 = Some 6 /\
+  (* ... and the record and A's executable are gone *)
+  alive s 6 = false /\ alive s 3 = false /\ alive s 7 = true /\
+  deref_ok s (slot s 12 0) = false /\ deref_ok s (slot s 12 1) = false /\ deref_ok s (slot s 7 0) = false /\
+  dangling s 9 /\
+  (* the one condition of immutable_global_import_keeps_definer fails, at the instantiation of A; nothing else is untracked *)
+  forallb imm_ok (imm_setup false ++ imm_close) = false /\
+  map (tracked_at (init true) (imm_setup false ++ imm_close)) (seq 0 10) = [true; false; true; true; true; true; true; true; true; true] /\
+  (* with the edge the same history keeps the record and the code, and everything is tracked *)
+  (let t := run (run (init true) (imm_setup true)) imm_close in
+   o_vis (getd t 7) = [5] /\ alive t 6 = true /\ alive t 3 = true /\ alive t 5 = true /\
+   deref_ok t (slot t 12 0) = true /\ deref_ok t (slot t 12 1) = true /\ any_dangling t = false /\
+   forallb imm_ok (imm_setup true ++ imm_close) = true /\ all_tracked (init true) (imm_setup true ++ imm_close) = true /\
+   (* and once M is dropped as well, nothing is leaked *)
+   map (alive (run t [OCloseModule 9; OCloseCompiled 8; ODrop 9; OGc])) [3; 4; 5; 6; 7; 8; 9; 12] = repeat false 8).
+Proof.
+  cbv zeta.
+  assert (E : edges (getd (run (run (init true) (imm_setup false)) imm_close) 9) = [7; 12; 10; 2]) by (vm_compute; reflexivity).
+  assert (S : o_slots (getd (run (run (init true) (imm_setup false)) imm_close) 7) = [Some 6]) by (vm_compute; reflexivity).
+  repeat match goal with |- _ /\ _ => split end; try (vm_compute; reflexivity).
+  - vm_compute. auto.
+  - split; [vm_compute; reflexivity|]. exists 7, 6. split; [|split].
+    + apply r_step with 7; [rewrite E; simpl; auto | apply r_refl].
+    + rewrite S; simpl; auto.
+    + vm_compute; reflexivity.
+Qed.
+
+(* the same history as the harness states it (harness/c09 FixedGlobals, first history; the model collects after every
+   step): M has a private table (holder 0), a private global initialised with `global.get g` (holder 1) and the imported
+   immutable global g (holder 2); module 2 is the unrelated module of the "one more compile" step *)
+Definition imm_mods (me : bool) : list mspec :=
+  [mkM [] [] 1 0 0 0 4 [] [mkG false (GFunc 0) me] [] []; mkM [] [] 1 0 1 1 4 [] [] [(0, 0)] [(0, 1, 2); (1, 0, 2)];
+   mkM [] [] 1 0 0 0 4 [] [] [] []].
+Definition imm_hops : list hop :=
+  [HCompile 0; HGc; HInst 0; HGc; HCompile 1; HGc; HInst 1; HGc; HCopy 1 2 0 0 0; HGc;
+   HCallInd 1 2 0; HGc; HCallInd 1 0 0; HGc; HCallInd 1 0 1; HGc; HCallInd 1 1 0; HGc;
+   HCloseMod 0; HGc; HCloseCompiled 0; HGc; HDropMod 0; HGc; HDropCompiled 0; HGc;
+   HCompile 2; HInst 2; HCloseMod 2; HCloseCompiled 2; HDropMod 2; HDropCompiled 2; HGc; HGc;
+   HCallInd 1 2 0; HCallInd 1 0 0; HCallInd 1 0 1; HCallInd 1 1 0].
+
+(* with GlobalInstance.Me (wazevo) every use after the collection works as before; without it (the interpreter, or the
+   seeded change) the global, the table slot set from it, the slot the element item filled and the private global
+   initialised from it all dangle *)
+Example classify_immutable_global :
+  skipn 34 (classify (true, imm_mods true, imm_hops)) = [0; 0; 0; 0]%Z /\
+  skipn 34 (classify (true, imm_mods false, imm_hops)) = [2; 2; 2; 2]%Z /\
+  firstn 34 (classify (true, imm_mods false, imm_hops)) = repeat 0%Z 34.
+Proof. vm_compute. repeat split; reflexivity. Qed.
+
+(* tracked / untracked channels around globals, on one state: A (4) exports an immutable global (7, ref.func A.f) and a
+   mutable one (8, null), both pointing to A's module engine; M (10) imports both (holders 1 and 2) and has a table (0) *)
+Definition spCA := mkSpec 3 [] [] 1 0 0 0 4 [] [mkG false (GFunc 0) true; mkG true GNull true] [] [].
+Definition spCM := mkSpec 9 [] [] 1 0 1 0 4 [] [] [(4, 0); (4, 1)] [].
+Definition chan_state := run (init true) [OCompile; OInstantiate spCA; OCompile; OInstantiate spCM].
+
+Example global_channels :
+  let s := chan_state in
+  o_kind (getd s 7) = KGlobalC /\ o_kind (getd s 8) = KGlobal /\ holder_of s 10 1 = 7 /\ holder_of s 10 2 = 8 /\
+  (* reading the imported immutable global into M's own table: tracked *)
+  tracked s (OCopy 10 1 0 0 0) = true /\
+  (* nobody can write the immutable global: neither the importer nor the exporter *)
+  holder_wr s 10 1 = false /\ holder_wr s 4 0 = false /\
+  step s (OSetRef 10 1 0 0) = s /\ step s (OSetRef 4 0 0 0) = s /\ step s (OClear 10 1 0) = s /\
+  (* the EXPORTER storing its own function into its mutable global: tracked (the global points to its module engine) *)
+  holder_wr s 4 1 = true /\ tracked s (OSetRef 4 1 0 0) = true /\
+  (* the IMPORTER storing its own function into the imported mutable global: performed, not tracked (F35) *)
+  holder_wr s 10 2 = true /\ tracked s (OSetRef 10 2 0 0) = false /\
+  slot (step s (OSetRef 10 2 0 0)) 8 0 = Some 12 /\
+  (* the initialisers: tracked iff the global points to the module engine *)
+  tracked s (OInstantiate spCA) = true /\ tracked s (OInstantiate (spIA false)) = false /\ imm_ok (OInstantiate (spIA false)) = false /\
+  (* a MUTABLE global without the edge fails only the strict condition *)
+  tracked s (OInstantiate (mkSpec 3 [] [] 1 0 0 0 4 [] [mkG true (GFunc 0) false] [] [])) = false /\
+  imm_ok (OInstantiate (mkSpec 3 [] [] 1 0 0 0 4 [] [mkG true (GFunc 0) false] [] [])) = true.
+Proof. vm_compute. repeat split; reflexivity. Qed.
+
+(* The hypotheses of immutable_global_import_keeps_definer are satisfiable with an UNTRACKED history: F35's hand-over has
+   happened (B's record dangles in A's mutable global), yet the immutable global M imported keeps its definer *)
+Example immutable_survives_untracked_history :
+  let ops := [OCompile; OInstantiate spCA; OCompile; OInstantiate spCM; OSetRef 10 2 0 0; OCopy 10 1 0 0 0;
+              OCloseModule 4; OCloseCompiled 3; ODrop 4; OEnter 4; OCloseModule 10; OCloseCompiled 9; ODrop 10; OGc] in
+  let s := run (init true) ops in
+  forallb imm_ok ops = true /\ all_tracked (init true) ops = false /\
+  (* the call in flight on A keeps A; M is gone, its record 12 dangles in A's mutable global (F35) *)
+  inst_ok s 4 = true /\ In 7 (o_vis (getd s 4)) /\ o_kind (getd s 7) = KGlobalC /\ o_slots (getd s 7) = [Some 6] /\
+  alive s 6 = true /\ alive s 3 = true /\ slot s 8 0 = Some 12 /\ alive s 12 = false /\ any_dangling s = true.
+Proof. vm_compute. repeat split; auto. Qed.
+
+(* Re-instantiating (or re-compiling) a module REPLACES the embedder's handle: the old instance is no longer a root.
+   The F08 hand-over followed by close, a new instance of the same module and a collection (found by a thorough run:
+   history 615): the prediction for the last call is "dangling use". *)
+Example classify_replaced_handle :
+  classify (true, [mkM [] [] 1 0 1 0 4 [] [] [] []; mkM [(0, 0)] [] 1 0 0 0 4 [] [] [] []],
+            [HCompile 0; HInst 0; HCompile 1; HInst 1; HPass 1 1 0 0 0; HCallInd 0 0 0;
+             HCloseMod 1; HCloseCompiled 1; HDropCompiled 1; HGc; HCallInd 0 0 0;
+             HCompile 1; HInst 1; HGc; HCallInd 0 0 0])
+  = [0; 0; 0; 0; 0; 0; 0; 0; 0; 0; 0; 0; 0; 0; 2]%Z.
+Proof. vm_compute. reflexivity. Qed.
+
+(* ------------------------------------------------------------------------------------------ *)
+(* what no operation writes: function records and immutable globals keep their kind and their raw references, in every
+   history (so "what an immutable global holds" is "what it was initialised with") *)
+
+Definition frozen (s s' : state) : Prop :=
+  length (heap s) <= length (heap s') /\
+  forall g, g < length (heap s) -> o_kind (getd s' g) = o_kind (getd s g) /\
+    (writable (o_kind (getd s g)) = false -> o_slots (getd s' g) = o_slots (getd s g)).
+
+Lemma frozen_refl : forall s, frozen s s.
+Proof. split; auto. Qed.
+
+Lemma frozen_trans : forall a b c, frozen a b -> frozen b c -> frozen a c.
+Proof.
+  intros a b c [L1 H1] [L2 H2]. split; [lia|]. intros g Lg.
+  destruct (H1 g Lg) as [K1 S1]. destruct (H2 g) as [K2 S2]; [lia|].
+  split; [congruence|]. intros W. rewrite S2, S1; auto. rewrite K1; auto.
+Qed.
+
+Lemma frozen_same_heap : forall s s', heap s' = heap s -> frozen s s'.
+Proof. intros s s' E. unfold frozen, getd. rewrite E. split; auto. Qed.
+
+Lemma frozen_upd : forall s i f,
+  o_kind (f (getd s i)) = o_kind (getd s i) ->
+  (writable (o_kind (getd s i)) = false -> o_slots (f (getd s i)) = o_slots (getd s i)) ->
+  frozen s (upd_obj s i f).
+Proof.
+  intros s i f K S. split; [rewrite length_upd_obj; auto|]. intros g Lg. rewrite getd_upd.
+  destruct ((g =? i) && (i <? length (heap s))) eqn:E; auto.
+  apply andb_true_iff in E; destruct E as [E _]; apply Nat.eqb_eq in E; subst. auto.
+Qed.
+
+Lemma frozen_alloc : forall s o, frozen s (fst (alloc s o)).
+Proof.
+  intros s o. split; [unfold alloc; simpl; rewrite app_length; lia|]. intros g Lg. rewrite getd_alloc.
+  destruct (Nat.eqb_spec g (length (heap s))); [lia | auto].
+Qed.
+
+Lemma frozen_add_vis : forall s i x, frozen s (add_vis s i x).
+Proof. intros; unfold add_vis; apply frozen_upd; auto. Qed.
+Lemma frozen_add_reg : forall s i x, frozen s (add_reg s i x).
+Proof. intros; unfold add_reg; apply frozen_upd; auto. Qed.
+Lemma frozen_del_reg : forall s i x, frozen s (del_reg s i x).
+Proof. intros; unfold del_reg; apply frozen_upd; auto. Qed.
+
+Lemma frozen_set_slot : forall s h k v, writable (o_kind (getd s h)) = true -> frozen s (set_slot s h k v).
+Proof. intros s h k v W. unfold set_slot. apply frozen_upd; auto. intros N. rewrite W in N; discriminate. Qed.
+
+Lemma frozen_alloc_owned : forall contents s c k, frozen s (fst (alloc_owned s c k contents)).
+Proof.
+  induction contents as [|sl rest IH]; intros s c k; simpl; [apply frozen_refl|].
+  match goal with |- context [add_vis ?a c ?n] => set (s2 := add_vis a c n) end.
+  specialize (IH s2 c k). destruct (alloc_owned s2 c k rest) as [s3 xs]. simpl in *.
+  eapply frozen_trans; [|exact IH]. eapply frozen_trans; [apply (frozen_alloc s)|apply frozen_add_vis].
+Qed.
+
+Lemma frozen_alloc_exported : forall n s i size, frozen s (fst (alloc_exported s i n size)).
+Proof.
+  induction n as [|n IH]; intros s i size; simpl; [apply frozen_refl|].
+  match goal with |- context [add_vis ?a i ?x] => set (s2 := add_vis a i x) end.
+  specialize (IH s2 i size). destruct (alloc_exported s2 i n size) as [s3 xs]. simpl in *.
+  eapply frozen_trans; [|exact IH]. eapply frozen_trans; [apply (frozen_alloc s)|apply frozen_add_vis].
+Qed.
+
+Lemma frozen_alloc_globals : forall gs s i me recs gimp, frozen s (fst (alloc_globals s i me recs gimp gs)).
+Proof.
+  induction gs as [|g gs IH]; intros s i me recs gimp; simpl; [apply frozen_refl|].
+  match goal with |- context [add_vis ?a i ?x] => set (s2 := add_vis a i x) end.
+  specialize (IH s2 i me recs gimp). destruct (alloc_globals s2 i me recs gimp gs) as [s3 xs]. simpl in *.
+  eapply frozen_trans; [|exact IH]. eapply frozen_trans; [apply (frozen_alloc s)|apply frozen_add_vis].
+Qed.
+
+Lemma frozen_link_tables : forall ts s i, frozen s (link_tables s i ts).
+Proof.
+  induction ts as [|t ts IH]; intros s i; simpl; [apply frozen_refl|].
+  eapply frozen_trans; [|apply IH]. eapply frozen_trans; apply frozen_add_vis.
+Qed.
+
+Lemma frozen_link_globals : forall gs s i, frozen s (link_globals s i gs).
+Proof.
+  induction gs as [|g gs IH]; intros s i; simpl; [apply frozen_refl|].
+  eapply frozen_trans; [|apply IH]. apply frozen_add_vis.
+Qed.
+
+Lemma frozen_set_ref : forall s i t k f, frozen s (set_ref s i t k f).
+Proof.
+  intros. unfold set_ref. destruct (holder_ok s i t && holder_wr s i t && rec_ok s i f) eqn:E; [|apply frozen_refl].
+  apply andb_true_iff in E; destruct E as [E _]. apply andb_true_iff in E; destruct E as [_ E].
+  apply frozen_set_slot. apply holder_wr_spec; auto.
+Qed.
+
+Lemma frozen_copy_ref : forall s i t k ts, frozen s (copy_ref s i t k ts).
+Proof.
+  intros. unfold copy_ref.
+  destruct (holder_ok s i t && holder_wr s i t && holder_acc s i ts && kind_eqb (o_kind (getd s (holder_of s i ts))) KGlobalC) eqn:E;
+    [|apply frozen_refl].
+  apply andb_true_iff in E; destruct E as [E _]. apply andb_true_iff in E; destruct E as [E _].
+  apply andb_true_iff in E; destruct E as [_ E].
+  apply frozen_set_slot. apply holder_wr_spec; auto.
+Qed.
+
+Lemma frozen_fold_set_ref : forall els s i, frozen s (fold_left (fun st e => let '(t, k, f) := e in set_ref st i t k f) els s).
+Proof.
+  induction els as [|[[t k] f] els IH]; intros s i; simpl; [apply frozen_refl|].
+  eapply frozen_trans; [apply frozen_set_ref | apply IH].
+Qed.
+
+Lemma frozen_fold_copy_ref : forall els s i, frozen s (fold_left (fun st e => let '(t, k, ts) := e in copy_ref st i t k ts) els s).
+Proof.
+  induction els as [|[[t k] ts] els IH]; intros s i; simpl; [apply frozen_refl|].
+  eapply frozen_trans; [apply frozen_copy_ref | apply IH].
+Qed.
+
+Lemma frozen_close_instances : forall l s, frozen s (close_instances s l).
+Proof.
+  unfold close_instances. induction l as [|a l IH]; intros s; simpl; [apply frozen_refl|].
+  destruct (kind_eqb (o_kind (getd s a)) KInstance); auto.
+  eapply frozen_trans; [|apply IH]. apply frozen_upd; auto.
+Qed.
+
+Lemma frozen_gc : forall s, frozen s (gc s).
+Proof.
+  intros s. unfold gc. destruct (mark edges (S (length (heap s))) (heap s) (roots s)) as [M|]; [|apply frozen_refl].
+  split.
+  - simpl. clear. generalize 0. induction (heap s); intros; simpl; auto. specialize (IHl (S n)). lia.
+  - intros g Lg. unfold getd; simpl. rewrite nth_sweep. simpl. destruct (memb g M); auto.
+Qed.
+
+Lemma frozen_instantiate : forall s sp, frozen s (instantiate s sp).
+Proof.
+  intros s sp. unfold instantiate. destruct (can_instantiate s sp); [|apply frozen_refl].
+  unfold alloc at 1. cbv beta iota.
+  match goal with |- context [with_heap s (heap s ++ [?o])] => set (s1 := with_heap s (heap s ++ [o])) end.
+  assert (F1 : frozen s s1) by apply (frozen_alloc s).
+  unfold alloc at 1. cbv beta iota.
+  match goal with |- context [with_heap s1 (heap s1 ++ [?o])] => set (s2 := with_heap s1 (heap s1 ++ [o])) end.
+  assert (F2 : frozen s s2) by (eapply frozen_trans; [exact F1 | apply (frozen_alloc s1)]).
+  set (ni := length (heap s)) in *. set (nme := length (heap s1)) in *.
+  set (s3 := add_vis s2 ni nme). assert (F3 : frozen s s3) by (eapply frozen_trans; [exact F2 | apply frozen_add_vis]).
+  match goal with |- context [alloc_owned s3 nme KFunc ?c] => set (codes := c) end.
+  pose proof (frozen_alloc_owned codes s3 nme KFunc) as G4.
+  destruct (alloc_owned s3 nme KFunc codes) as [s4 recs]. simpl fst in G4.
+  pose proof (frozen_alloc_exported (sp_nexp sp) s4 ni (sp_size sp)) as G5.
+  destruct (alloc_exported s4 ni (sp_nexp sp) (sp_size sp)) as [s5 texp]. simpl fst in G5.
+  pose proof (frozen_alloc_owned (repeat (repeat None (sp_size sp)) (sp_npriv sp)) s5 ni KTable) as G6.
+  destruct (alloc_owned s5 ni KTable (repeat (repeat None (sp_size sp)) (sp_npriv sp))) as [s6 tpriv]. simpl fst in G6.
+  pose proof (frozen_alloc_owned (repeat [None] (sp_nglob sp)) s6 ni KGlobal) as G7.
+  destruct (alloc_owned s6 ni KGlobal (repeat [None] (sp_nglob sp))) as [s7 globs]. simpl fst in G7.
+  set (timp := map (fun p : nat * nat => holder_of s (fst p) (snd p)) (sp_impt sp)).
+  set (gimp := map (fun p : nat * nat => holder_of s (fst p) (snd p)) (sp_impg sp)).
+  pose proof (frozen_link_tables timp s7 ni) as G8. set (s8 := link_tables s7 ni timp) in *.
+  pose proof (frozen_link_globals gimp s8 ni) as G8a. set (s8a := link_globals s8 ni gimp) in *.
+  pose proof (frozen_alloc_globals (sp_expg sp) s8a ni nme recs gimp) as G8b.
+  destruct (alloc_globals s8a ni nme recs gimp (sp_expg sp)) as [s8b gexp]. simpl fst in G8b.
+  assert (F8b : frozen s s8b).
+  { eapply frozen_trans; [|exact G8b]. eapply frozen_trans; [|exact G8a]. eapply frozen_trans; [|exact G8].
+    eapply frozen_trans; [|exact G7]. eapply frozen_trans; [|exact G6]. eapply frozen_trans; [|exact G5].
+    eapply frozen_trans; [|exact G4]. exact F3. }
+  eapply frozen_trans; [|apply frozen_fold_copy_ref]. eapply frozen_trans; [|apply frozen_fold_set_ref].
+  eapply frozen_trans; [exact F8b|].
+  eapply frozen_trans; [|apply frozen_same_heap; reflexivity].
+  eapply frozen_trans; [|apply frozen_add_reg].
+  eapply frozen_trans; apply frozen_upd; auto.
+Qed.
+
+Lemma frozen_step : forall s o, frozen s (step s o).
+Proof.
+  intros s o. destruct o; simpl.
+  - unfold compile. destruct (_ && _); [|apply frozen_refl].
+    unfold alloc. cbv beta iota zeta.
+    eapply frozen_trans; [|apply frozen_same_heap; reflexivity]. eapply frozen_trans; [|apply frozen_add_reg].
+    apply (frozen_alloc s).
+  - apply frozen_instantiate.
+  - destruct (holder_wr s i t && rec_ok s i f) eqn:E; [|apply frozen_refl].
+    apply andb_true_iff in E; destruct E as [E _]. apply frozen_set_slot. apply holder_wr_spec; auto.
+  - destruct (holder_acc s i ts && holder_wr s i td) eqn:E; [|apply frozen_refl].
+    apply andb_true_iff in E; destruct E as [_ E]. apply frozen_set_slot. apply holder_wr_spec; auto.
+  - destruct (holder_wr s i t) eqn:E; [|apply frozen_refl]. apply frozen_set_slot. apply holder_wr_spec; auto.
+  - destruct (holder_acc s i t && rec_ok s i f) eqn:E; simpl; [|apply frozen_refl].
+    destruct (kind_eqb (o_kind (getd s (holder_of s i t))) KTable) eqn:KT; [|apply frozen_refl]. apply kind_eqb_eq in KT.
+    apply frozen_upd; auto. intros N. rewrite KT in N. discriminate.
+  - destruct (rec_ok s i f && holder_wr s j t) eqn:E; [|apply frozen_refl].
+    apply andb_true_iff in E; destruct E as [_ E]. apply frozen_set_slot. apply holder_wr_spec; auto.
+  - destruct (holder_acc s i ts && holder_wr s j t) eqn:E; [|apply frozen_refl].
+    apply andb_true_iff in E; destruct E as [_ E]. apply frozen_set_slot. apply holder_wr_spec; auto.
+  - apply frozen_refl.
+  - apply frozen_refl.
+  - destruct (inst_ok s i); [apply frozen_same_heap; reflexivity | apply frozen_refl].
+  - apply frozen_same_heap; reflexivity.
+  - destruct (alive s i && kind_eqb (o_kind (getd s i)) KInstance); [|apply frozen_refl].
+    eapply frozen_trans; [|apply frozen_del_reg]. apply frozen_upd; auto.
+  - eapply frozen_trans; [apply frozen_del_reg | apply frozen_same_heap; reflexivity].
+  - destruct (cached s); [|apply frozen_refl]. unfold close_engine. apply frozen_upd; auto.
+  - assert (F : frozen s (upd_obj (close_instances s (o_reg (getd s RUNTIME))) RUNTIME
+                (fun o => set_closed true (set_reg (filter (fun x => negb (kind_eqb (o_kind (getd s x)) KInstance)) (o_reg o)) o)))).
+    { eapply frozen_trans; [apply frozen_close_instances | apply frozen_upd; auto]. }
+    destruct (cached s); auto. eapply frozen_trans; [exact F|]. unfold close_engine. apply frozen_upd; auto.
+  - apply frozen_same_heap; reflexivity.
+  - apply frozen_gc.
+Qed.
+
+Lemma frozen_run : forall ops s, frozen s (run s ops).
+Proof.
+  unfold run. induction ops as [|o ops IH]; intros s; simpl; [apply frozen_refl|].
+  eapply frozen_trans; [apply frozen_step | apply IH].
+Qed.
+
+(* an immutable global (or a function record) that exists after a history keeps kind and contents through any continuation *)
+Theorem immutable_never_changes : forall c ops1 ops2 g,
+  let s1 := run (init c) ops1 in
+  let s := run (init c) (ops1 ++ ops2) in
+  g < length (heap s1) -> writable (o_kind (getd s1 g)) = false ->
+  o_kind (getd s g) = o_kind (getd s1 g) /\ o_slots (getd s g) = o_slots (getd s1 g).
+Proof.
+  intros c ops1 ops2 g s1 s L W. unfold s, run. rewrite fold_left_app.
+  destruct (frozen_run ops2 s1) as [_ F]. destruct (F g L) as [K S]. split; auto.
 Qed.
